@@ -1,2457 +1,25 @@
-(* Proofs/TeardownProofs.v -- proofs about the blocking-structure LTSs of Impl/Teardown.v.
-   Statements: Props/Teardown.v.  Layout: generic lemmas (wait cycles, leads-to under weak and strong
-   fairness, concrete traces); server: invariants, rank, progress (S1), fair runs (S2), examples and
-   findings; client: invariants, lock order (S3), findings, liveness under fairness (S3). *)
+(* Proofs/TeardownProofs.v -- the statements of Props/Teardown.v, collected from the pieces:
+     TeardownGen                        generic lemmas (wait cycles, leads-to, traces)
+     TeardownSrvInv, SrvS1, SrvS2, SrvEx   server: invariants and rank, S1, S2, examples and finding
+     TeardownCliInv, CliInv1..5, CliLocks  client: invariants, lock order (S3)
+     TeardownCliEx                      client: findings and example
+     TeardownCliLive1..7                client: liveness under fairness (S3)
+   The pieces are independent where they can be, so that they build in parallel. *)
 From Coq Require Import Arith Lia Bool List.
 From RecordUpdate Require Import RecordSet.
 Import RecordSetNotations.
 Import ListNotations.
-From H2V Require Import Impl.Teardown.
-
-(* ---------------------------------------------------------------------------------------- *)
-(** * Generic: ordered acquisition admits no wait cycle                                        *)
-(* ---------------------------------------------------------------------------------------- *)
-Section WaitCycleProofs.
-  Context {Proc : Type}.
-  Variable wants : Proc -> option nat.
-  Variable holds : Proc -> nat -> Prop.
-
-  Lemma chain_wants : forall l p q, wait_chain wants holds p l q -> exists m, wants p = Some m.
-  Proof.
-    intros l; destruct l as [|x l]; cbn; intros p q H.
-    - destruct H as (m & H & _); eauto.
-    - destruct H as ((m & H & _) & _); eauto.
-  Qed.
-
-  Lemma chain_increasing :
-    ordered wants holds ->
-    forall l p q m, wait_chain wants holds p l q -> wants p = Some m ->
-      exists m', holds q m' /\ m <= m'.
-  Proof.
-    intros Ho; induction l as [|x l IH]; cbn; intros p q m H Hw.
-    - destruct H as (m0 & H1 & H2). rewrite Hw in H1; inversion H1; subst. eauto.
-    - destruct H as ((m0 & H1 & H2) & Hc). rewrite Hw in H1; inversion H1; subst m0.
-      destruct (chain_wants _ _ _ Hc) as (mx & Hx).
-      destruct (IH _ _ _ Hc Hx) as (m' & Hq & Hle).
-      exists m'; split; auto. specialize (Ho _ _ _ Hx H2). lia.
-  Qed.
-
-  Theorem ordered_no_wait_cycle : ordered wants holds -> ~ wait_cycle wants holds.
-  Proof.
-    intros Ho (p & l & Hc).
-    destruct (chain_wants _ _ _ Hc) as (m & Hw).
-    destruct (chain_increasing Ho _ _ _ _ Hc Hw) as (m' & Hh & Hle).
-    specialize (Ho _ _ _ Hw Hh). lia.
-  Qed.
-End WaitCycleProofs.
-
-(* ---------------------------------------------------------------------------------------- *)
-(** * Generic: leads-to under weak fairness                                                    *)
-(* ---------------------------------------------------------------------------------------- *)
-Section LeadsTo.
-  Context {St Act : Type}.
-  Variable guard : Act -> St -> Prop.
-  Variable eff : Act -> St -> St.
-  Variable r : run guard eff.
-  Variable Inv : St -> Prop.
-  Hypothesis Inv_run : forall i, Inv (st r i).
-
-  Notation "P ~> Q" := (leadsto r P Q) (at level 70).
-
-  Lemma run_step : forall i, st r (S i) = st r i \/ exists a, guard a (st r i) /\ st r (S i) = eff a (st r i).
-  Proof.
-    intros i. pose proof (run_ok _ _ r i) as H. destruct (lab r i); [right|left]; eauto.
-  Qed.
-
-  (* a set closed under every step (inside Inv) *)
-  Definition stable (S : St -> Prop) : Prop :=
-    forall s a, Inv s -> S s -> guard a s -> S (eff a s).
-
-  Lemma stable_run : forall S, stable S -> forall i j, i <= j -> S (st r i) -> S (st r j).
-  Proof.
-    intros S HS i j Hij Hi. induction Hij; auto.
-    destruct (run_step m) as [E|(a & G & E)]; rewrite E; auto.
-  Qed.
-
-  Lemma lt_refl : forall P, P ~> P.
-  Proof. intros P i H; exists i; auto. Qed.
-
-  Lemma lt_weaken : forall (P P' Q Q' : St -> Prop),
-    P ~> Q -> (forall s, Inv s -> P' s -> P s) -> (forall s, Inv s -> Q s -> Q' s) -> P' ~> Q'.
-  Proof.
-    intros P P' Q Q' H HP HQ i Hi. destruct (H i (HP _ (Inv_run i) Hi)) as (j & Hj & Hq).
-    exists j; split; auto.
-  Qed.
-
-  Lemma lt_trans : forall P Q R, P ~> Q -> Q ~> R -> P ~> R.
-  Proof.
-    intros P Q R H1 H2 i Hi. destruct (H1 i Hi) as (j & Hj & Hq).
-    destruct (H2 j Hq) as (k & Hk & Hr). exists k; split; auto; lia.
-  Qed.
-
-  Lemma lt_or : forall P1 P2 Q, P1 ~> Q -> P2 ~> Q -> (fun s => P1 s \/ P2 s) ~> Q.
-  Proof. intros P1 P2 Q H1 H2 i [H|H]; eauto. Qed.
-
-  Lemma lt_stable : forall P Q S, P ~> Q -> stable S -> (fun s => P s /\ S s) ~> (fun s => Q s /\ S s).
-  Proof.
-    intros P Q S H HS i (Hp & Hs). destruct (H i Hp) as (j & Hj & Hq).
-    exists j; repeat split; auto. eapply stable_run; eauto.
-  Qed.
-
-  (* well-founded induction on a variant *)
-  Lemma lt_variant : forall (P Q : St -> Prop) (v : St -> nat),
-    (forall n, (fun s => P s /\ v s = n) ~> (fun s => Q s \/ (P s /\ v s < n))) -> P ~> Q.
-  Proof.
-    intros P Q v H.
-    assert (forall n i, P (st r i) -> v (st r i) < n -> exists j, i <= j /\ Q (st r j)) as K.
-    { induction n; intros i Hp Hv; [lia|].
-      destruct (H (v (st r i)) i (conj Hp eq_refl)) as (j & Hj & [Hq|(Hp' & Hv')]).
-      - eauto.
-      - destruct (IHn j Hp' ltac:(lia)) as (k & Hk & Hq). exists k; split; auto; lia. }
-    intros i Hp. eapply K; eauto.
-  Qed.
-
-  (* the basic rule: while P holds the group G stays enabled, everybody's steps keep P or
-     establish Q, and G's steps establish Q *)
-  Lemma lt_ensures : forall (G : Act -> Prop) (P Q : St -> Prop),
-    fair G r ->
-    (forall s a, Inv s -> P s -> guard a s -> P (eff a s) \/ Q (eff a s)) ->
-    (forall s a, Inv s -> P s -> G a -> guard a s -> Q (eff a s)) ->
-    (forall s, Inv s -> P s -> exists a, G a /\ guard a s) ->
-    P ~> Q.
-  Proof.
-    intros G P Q HF H1 H2 H3 i Hi.
-    destruct (HF i) as (j & Hij & Hj).
-    assert (forall k, i <= k -> k <= j -> (exists m, i <= m /\ Q (st r m)) \/ P (st r k)) as K.
-    { intros k Hik. induction Hik; intros Hkj; auto.
-      destruct IHHik as [?|Hp]; [lia|auto|].
-      destruct (run_step m) as [E|(a & Ga & E)]; rewrite E; auto.
-      destruct (H1 _ _ (Inv_run m) Hp Ga) as [?|Hq]; auto.
-      left; exists (S m); split; [lia|]. rewrite E; auto. }
-    destruct (K j Hij (le_n _)) as [?|Hp]; auto.
-    destruct Hj as [Ht|Hd].
-    - pose proof (run_ok _ _ r j) as Hr. unfold taken in Ht. destruct (lab r j) as [a|]; [|tauto].
-      destruct Hr as (Ga & E). exists (S j); split; [lia|]. rewrite E. eapply H2; eauto.
-    - destruct (H3 _ (Inv_run j) Hp) as (a & Ha & Ga). exfalso; eapply Hd; eauto.
-  Qed.
-
-  (* walking along the run while P holds "unless" Q *)
-  Lemma walk_unless : forall (P Q : St -> Prop),
-    (forall s a, Inv s -> P s -> guard a s -> P (eff a s) \/ Q (eff a s)) ->
-    forall i j, i <= j -> P (st r i) -> (exists m, i <= m /\ m <= j /\ Q (st r m)) \/ P (st r j).
-  Proof.
-    intros P Q H1 i j Hij Hi. induction Hij; auto.
-    destruct IHHij as [(m0 & ? & ? & ?)|Hp]; [left; exists m0; repeat split; auto|].
-    destruct (run_step m) as [E|(a & Ga & E)]; rewrite E; auto.
-    destruct (H1 _ _ (Inv_run m) Hp Ga) as [?|Hq]; auto.
-    left; exists (S m); repeat split; auto. rewrite E; auto.
-  Qed.
-
-  (* P unless Q, and A leads to B: then from P /\ A either Q shows up or P is still there when B does *)
-  Lemma lt_unless : forall (P Q A B : St -> Prop),
-    (forall s a, Inv s -> P s -> guard a s -> P (eff a s) \/ Q (eff a s)) ->
-    A ~> B -> (fun s => P s /\ A s) ~> (fun s => Q s \/ (P s /\ B s)).
-  Proof.
-    intros P Q A B H1 HAB i (Hp & Ha). destruct (HAB i Ha) as (j & Hj & Hb).
-    destruct (walk_unless P Q H1 i j Hj Hp) as [(m & ? & ? & ?)|Hp'].
-    - exists m; auto.
-    - exists j; auto.
-  Qed.
-
-  Lemma sfair_fair : forall G, sfair G r -> fair G r.
-  Proof.
-    intros G H i. destruct (H i) as [(j & Hj & Ht)|(j & Hj & Hd)]; exists j; split; auto.
-  Qed.
-
-  (* the rule for strong fairness: the group need not stay enabled, it only has to become
-     enabled again and again for as long as P lasts *)
-  Lemma lt_ensures_s : forall (G : Act -> Prop) (P Q : St -> Prop),
-    sfair G r ->
-    (forall s a, Inv s -> P s -> guard a s -> P (eff a s) \/ Q (eff a s)) ->
-    (forall s a, Inv s -> P s -> G a -> guard a s -> Q (eff a s)) ->
-    P ~> (fun s => Q s \/ exists a, G a /\ guard a s) ->
-    P ~> Q.
-  Proof.
-    intros G P Q HF H1 H2 H3 i Hi.
-    destruct (HF i) as [(j & Hij & Ht)|(j & Hij & Hd)].
-    - destruct (walk_unless P Q H1 i j Hij Hi) as [(m & ? & ? & ?)|Hp]; [exists m; auto|].
-      pose proof (run_ok _ _ r j) as Hr. unfold taken in Ht. destruct (lab r j) as [a|]; [|tauto].
-      destruct Hr as (Ga & E). exists (S j); split; [lia|]. rewrite E. eapply H2; eauto.
-    - destruct (walk_unless P Q H1 i j Hij Hi) as [(m & ? & ? & ?)|Hp]; [exists m; auto|].
-      destruct (H3 j Hp) as (k & Hk & [Hq|(a & Ga & Gd)]).
-      + exists k; split; auto; lia.
-      + exfalso. eapply (Hd k Hk); eauto.
-  Qed.
-End LeadsTo.
-
-Lemma reach_run : forall {St Act} (guard : Act -> St -> Prop) eff init (r : run guard eff),
-  reach guard eff init (st r 0) -> forall i, reach guard eff init (st r i).
-Proof.
-  intros. induction i; auto.
-  destruct (run_step guard eff r i) as [E|(a & G & E)]; rewrite E; auto.
-  apply reach_step; auto.
-Qed.
-
-Lemma path_length_rank : forall {St Act} (guard : Act -> St -> Prop) eff (ok : Act -> Prop)
-  (P : St -> Prop) (rank : St -> nat),
-  (forall s a, P s -> guard a s -> P (eff a s)) ->
-  (forall s a, P s -> ok a -> guard a s -> rank (eff a s) < rank s) ->
-  forall s l s', P s -> path guard eff ok s l s' -> length l + rank s' <= rank s.
-Proof.
-  intros St Act guard eff ok P rank HP Hr s l s' Hs Hp. induction Hp; cbn; [lia|].
-  specialize (IHHp (HP _ _ Hs H0)). specialize (Hr _ _ Hs H H0). lia.
-Qed.
-
-Lemma path_reach : forall {St Act} (guard : Act -> St -> Prop) eff init ok s l s',
-  reach guard eff init s -> path guard eff ok s l s' -> reach guard eff init s'.
-Proof. intros. induction H0; auto. apply IHpath. apply reach_step; auto. Qed.
-
-(* ---------------------------------------------------------------------------------------- *)
-(** * Generic: concrete traces                                                                 *)
-(* ---------------------------------------------------------------------------------------- *)
-Section Traces.
-  Context {St Act : Type}.
-  Variable guard : Act -> St -> Prop.
-  Variable eff : Act -> St -> St.
-  Variable init : St -> Prop.
-
-  Fixpoint run_acts (l : list Act) (s : St) : St :=
-    match l with [] => s | a :: l' => run_acts l' (eff a s) end.
-  Fixpoint guards (l : list Act) (s : St) : Prop :=
-    match l with [] => True | a :: l' => guard a s /\ guards l' (eff a s) end.
-
-  Lemma reach_acts : forall l s, reach guard eff init s -> guards l s ->
-    reach guard eff init (run_acts l s).
-  Proof.
-    induction l; cbn; intros s R G; auto. destruct G. apply IHl; auto. apply reach_step; auto.
-  Qed.
-
-  Lemma guards_cons_intro : forall a l s s',
-    guard a s -> s' = eff a s -> guards l s' -> guards (a :: l) s.
-  Proof. intros; subst; split; auto. Qed.
-
-  Definition const_run (s : St) : run guard eff.
-  Proof. refine {| st := fun _ => s; lab := fun _ => None |}. intros; reflexivity. Defined.
-End Traces.
-
-Ltac norm_eq :=
-  match goal with |- ?x = ?rhs => let v := eval cbv -[Init.Nat.pred Init.Nat.add] in rhs in unify x v; reflexivity end.
-Ltac guards_tac :=
-  repeat first [ exact I
-               | eapply guards_cons_intro;
-                 [solve [cbn; repeat split; eauto; try lia; try discriminate] | norm_eq | ] ].
-
-Module SrvP.
-Import Srv.
-
-Ltac break :=
-  repeat match goal with
-         | H : _ /\ _ |- _ => destruct H
-         | H : exists _, _ |- _ => destruct H
-         end.
-Ltac rw_pcs :=
-  repeat match goal with
-         | H : sv ?s = _ |- _ => rewrite H in *; clear H
-         | H : sl ?s = _ |- _ => rewrite H in *; clear H
-         | H : wl ?s = _ |- _ => rewrite H in *; clear H
-         | H : pg ?s = _ |- _ => rewrite H in *; clear H
-         end.
-Ltac bools :=
-  repeat match goal with
-         | H : ?f ?s = true |- _ => rewrite H in *; clear H
-         | H : ?f ?s = false |- _ => rewrite H in *; clear H
-         end.
-
-Section P.
-Variable cap : nat.
-
-Notation guard := (Srv.guard cap).
-Notation reachable := (Srv.reachable cap).
-
-(* ---- invariants ---- *)
-Definition wl_is_done (p : wl_pc) : bool := match p with WDone => true | _ => false end.
-Definition sl_is_done (p : sl_pc) : bool := match p with SDone => true | _ => false end.
-Definition sl_past_a (p : sl_pc) : bool :=
-  match p with SExitB | SExitC | SDone => true | _ => false end.
-Definition sv_past_close (p : sv_pc) : bool := match p with VWait | VEnd => true | _ => false end.
-Definition sv_is_end (p : sv_pc) : bool := match p with VEnd => true | _ => false end.
-Definition wl_past_close (p : wl_pc) : bool :=
-  match p with WCloseDone | WDone => true | _ => false end.
-Definition wl_draining (p : wl_pc) : bool :=
-  match p with WDrain | WFlush | WSock true | WCloseSock | WCloseDone | WDone => false | _ => true end.
-
-Record inv (s : state) : Prop := {
-  i_wdone : wdone s = wl_is_done (wl s);
-  i_wstop : wstop s = sl_is_done (sl s);
-  i_hstop : hstop s = sl_past_a (sl s);
-  i_rdc : rdc s = sv_past_close (sv s);
-  i_svend : sv_is_end (sv s) = true -> sclosed s = true;
-  i_wlclose : wl_past_close (wl s) = true -> sclosed s = true;
-  i_rd : rd s <= cap;
-  i_wr : wr s <= cap;
-  i_hd : hd s <= cap }.
-
-
-
-Lemma inv_init : forall s, init s -> inv s.
-Proof.
-  unfold init; intros s H; break.
-  constructor; try (rw_pcs; cbn; congruence); try lia.
-  - destruct H; rw_pcs; cbn; congruence.
-  - destruct H; rw_pcs; cbn; congruence.
-Qed.
-
-Lemma inv_step : forall s a, inv s -> guard a s -> inv (eff a s).
-Proof.
-  intros s a [] G.
-  destruct a; try destruct c; cbn in G; break;
-    constructor; cbn; rw_pcs; cbn in *;
-      auto; try congruence; try lia;
-      try (match goal with |- context [match ?x with _ => _ end] => destruct x end; cbn in *; auto; congruence).
-Qed.
-
-Lemma reachable_inv : forall s, reachable s -> inv s.
-Proof. induction 1; auto using inv_init, inv_step. Qed.
-
-(* ---- the rank ---- *)
-
-Lemma dead_gone : forall s, gone s = true -> dead s = true.
-Proof. unfold dead; intros s ->; auto. Qed.
-
-Theorem rank_decreases : forall s a, refills a = false -> guard a s -> rank (eff a s) < rank s.
-Proof.
-  intros s a Hr G.
-  destruct a; try discriminate Hr; try destruct c; cbn in G; break;
-    unfold rank; cbn -[Nat.mul]; rw_pcs; bools; cbn -[Nat.mul];
-    try lia;
-    try (match goal with x : bool |- _ => destruct x end; cbn -[Nat.mul]; lia).
-  - destruct (pg s), (i_armed s); cbn; lia.
-  - destruct d, r, (i_armed s); cbn -[Nat.mul]; lia.
-  - destruct (pg s); cbn; lia.
-Qed.
-End P.
-End SrvP.
-
-Module SrvP1.
-Import Srv SrvP.
-
-Section P.
-Variable cap : nat.
-Hypothesis cap_pos : 1 <= cap.
-Notation guard := (Srv.guard cap).
-Notation reachable := (Srv.reachable cap).
-Notation inv := (SrvP.inv cap).
-
-Definition proc_act (a : act) : Prop := is_env a = false.
-
-Ltac fire a := right; exists a; split; [reflexivity | cbn; repeat split; eauto; try lia].
-
-(* S1, deadlock freedom: with the peer gone, either nothing is left of the connection but handlers
-   in user code and armed timers, or some goroutine can take a step. *)
-Lemma progress_dead : forall s, inv s -> dead s = true ->
-  quiet s \/ exists a, proc_act a /\ guard a s.
-Proof.
-  intros s I D. destruct I.
-  (* the write loop moves unless parked in its select or gone *)
-  destruct (wl s) eqn:Ewl.
-  2:{ fire WSockFail. }
-  2:{ destruct (Nat.eq_dec (wr s) 0); [fire WDrainEmpty | fire WDrainTake]. }
-  2:{ fire WFlushRet. }
-  2:{ fire WSockClose. }
-  2:{ fire WDoneClose. }
-  - (* WSelect *)
-    destruct (Nat.eq_dec (wr s) 0) as [Ewr|]; [|fire WTake].
-    destruct (sl s) eqn:Esl.
-    + (* SSelect *)
-      destruct (closer s) eqn:?; [fire SCloser|].
-      destruct (Nat.eq_dec (hd s) 0); [|fire STakeHd].
-      destruct (rt s) eqn:?; [fire STakeTimer|].
-      destruct (Nat.eq_dec (rd s) 0); [|fire (STakeRd false false)].
-      destruct (sv s) eqn:Esv.
-      * fire RReadFail.
-      * fire RFwdSend.
-      * fire (RWr ViaQueue).
-      * fire VStopTimers.
-      * fire VCloseReader.
-      * fire SRdClosed.
-      * fire SRdClosed.
-    + fire SBodyCont.
-    + fire (SWr ViaQueue).
-    + fire SCloseHStop.
-    + fire SStopPing.
-    + fire SCloseWStop.
-    + cbn in *. fire WStop.
-  - (* WDone: writeDone is closed *)
-    cbn in i_wdone0.
-    destruct (sl s) eqn:Esl.
-    + destruct (closer s) eqn:?; [fire SCloser|].
-      destruct (Nat.eq_dec (hd s) 0); [|fire STakeHd].
-      destruct (rt s) eqn:?; [fire STakeTimer|].
-      destruct (Nat.eq_dec (rd s) 0); [|fire (STakeRd false false)].
-      destruct (sv s) eqn:Esv.
-      * fire RReadFail.
-      * fire RFwdSend.
-      * fire (RWr ViaDone).
-      * fire VStopTimers.
-      * fire VCloseReader.
-      * fire SRdClosed.
-      * fire SRdClosed.
-    + fire SBodyCont.
-    + fire (SWr ViaDone).
-    + fire SCloseHStop.
-    + fire SStopPing.
-    + fire SCloseWStop.
-    + cbn in *.
-      destruct (sv s) eqn:Esv.
-      * fire RReadFail.
-      * fire RFwdStop.
-      * fire (RWr ViaDone).
-      * fire VStopTimers.
-      * fire VCloseReader.
-      * fire VWaitDone.
-      * destruct (Nat.eq_dec (h_send s) 0); [|fire HStop].
-        destruct (Nat.eq_dec (Srv.i_wr s) 0); [|fire (IWr ViaDone)].
-        destruct (Nat.eq_dec (i_cl s) 0); [|fire ICloseCloser].
-        destruct (pg s) eqn:Epg.
-        -- left; repeat split; auto; congruence.
-        -- fire (PWr ViaDone).
-        -- fire PRearm.
-        -- left; repeat split; auto; congruence.
-Qed.
-
-(* S1, termination: every action that is not a frame arriving, the request timer or the ping
-   timer firing lowers the rank (SrvP.rank_decreases); so a path without those has at most
-   [rank s] steps. *)
-Definition no_refill (a : act) : Prop := refills a = false.
-
-Theorem bounded_paths : forall s l s',
-  path guard eff no_refill s l s' -> length l + rank s' <= rank s.
-Proof.
-  intros s l s' H.
-  eapply (path_length_rank guard eff no_refill (fun _ => True) rank); eauto.
-  intros; apply (rank_decreases cap); auto.
-Qed.
-
-Lemma dead_stable : forall s a, dead s = true -> dead (eff a s) = true.
-Proof.
-  unfold dead; intros s a H. apply orb_true_iff in H. apply orb_true_iff.
-  destruct a; try destruct c; cbn; tauto.
-Qed.
-
-Lemma gone_stable : forall s a, gone s = true -> gone (eff a s) = true.
-Proof. intros s a H; destruct a; try destruct c; cbn; auto. Qed.
-
-(* S1, conclusion: from a reachable state where the peer is gone, the goroutines can always run
-   to the quiet state, in at most [rank s] steps of their own ... *)
-Theorem can_finish : forall n s, reachable s -> dead s = true -> rank s <= n ->
-  exists l s', path guard eff proc_act s l s' /\ quiet s' /\ length l <= n.
-Proof.
-  induction n; intros s R D Hn.
-  - destruct (progress_dead s (reachable_inv cap s R) D) as [Q|(a & Pa & G)].
-    + exists [], s; split; [apply path_nil | split; [auto | cbn; lia]].
-    + assert (refills a = false) by (destruct a; auto; discriminate).
-      pose proof (rank_decreases cap s a H G). lia.
-  - destruct (progress_dead s (reachable_inv cap s R) D) as [Q|(a & Pa & G)].
-    + exists [], s; split; [apply path_nil | split; [auto | cbn; lia]].
-    + assert (refills a = false) by (destruct a; auto; discriminate).
-      pose proof (rank_decreases cap s a H G).
-      destruct (IHn (eff a s)) as (l & s' & Hp & Hq & Hl).
-      * apply reach_step; auto.
-      * apply dead_stable; auto.
-      * lia.
-      * exists (a :: l), s'; split; [apply path_cons; auto | split; [auto | cbn; lia]].
-Qed.
-
-(* ... and whatever they do, they cannot avoid it: a sequence of their steps that cannot be
-   extended ends in the quiet state. *)
-Theorem must_finish : forall s l s', reachable s -> dead s = true ->
-  path guard eff proc_act s l s' -> (forall a, proc_act a -> ~ guard a s') -> quiet s'.
-Proof.
-  intros s l s' R D Hp Hmax.
-  assert (reachable s' /\ dead s' = true) as (R' & D').
-  { clear Hmax. induction Hp; auto. apply IHHp; [apply reach_step; auto | apply dead_stable; auto]. }
-  destruct (progress_dead s' (reachable_inv cap s' R') D') as [Q|(a & Pa & G)]; auto.
-  exfalso; eapply Hmax; eauto.
-Qed.
-
-(* the three loops stay exited *)
-Lemma loops_exited_stable : forall s a, loops_exited s -> guard a s -> loops_exited (eff a s).
-Proof.
-  unfold loops_exited; intros s a (H1 & H2 & H3) G.
-  destruct a; try destruct c; cbn in G |- *; break; try congruence; auto.
-Qed.
-
-(* once they have, nothing that is left can park: handlers that return, and the callbacks of
-   timers that were re-armed, all find handlerStop / writeStop closed *)
-Lemma exited_never_parks : forall s, inv s -> loops_exited s ->
-  (0 < h_send s -> guard HStop s) /\ (pg s = PWrite -> guard (PWr ViaStop) s) /\
-  (0 < Srv.i_wr s -> guard (IWr ViaStop) s).
-Proof.
-  intros s [] (H1 & H2 & H3). rewrite H2 in *; cbn in *. repeat split; auto.
-Qed.
-End P.
-End SrvP1.
-
-Module SrvP2.
-Import Srv SrvP SrvP1.
-
-Ltac act_cases a := destruct a; try match goal with c : wchoice |- _ => destruct c end.
-Ltac injs :=
-  repeat match goal with
-         | H : RWrite _ = RWrite _ |- _ => inversion H; clear H; subst
-         | H : WSock _ = WSock _ |- _ => inversion H; clear H; subst
-         end.
-Ltac done_goal := cbn; rw_pcs; injs; cbn; repeat split; auto; try congruence; try lia.
-Ltac ens1 :=
-  let s := fresh "s" in let a := fresh "a" in let I := fresh "I" in
-  let HP := fresh "HP" in let G := fresh "G" in
-  intros s a I HP G; act_cases a; cbn in G |- *; break; try congruence;
-  first [ left; solve [done_goal] | right; solve [done_goal] | idtac ].
-Ltac ens2 :=
-  let s := fresh "s" in let a := fresh "a" in let I := fresh "I" in
-  let HP := fresh "HP" in let G := fresh "G" in let Ga := fresh "Ga" in
-  intros s a I HP Ga G; act_cases a; cbn in Ga; try contradiction; cbn in G |- *; break;
-  try congruence; try solve [done_goal].
-
-Ltac rd_case :=
-  first [ left; solve [cbn; auto 6]
-        | right; bools; cbn -[Nat.mul] in *; repeat split; eauto; lia ].
-
-Section P.
-Variable cap : nat.
-Hypothesis cap_pos : 1 <= cap.
-Notation guard := (Srv.guard cap).
-Notation reachable := (Srv.reachable cap).
-Notation inv := (SrvP.inv cap).
-
-Variable r : run guard eff.
-Hypothesis F : fair_run cap r.
-Hypothesis R0 : reachable (st r 0).
-
-Lemma Inv_run : forall i, inv (st r i).
-Proof. intros; apply reachable_inv; apply reach_run; auto. Qed.
-
-Notation "P ~> Q" := (leadsto r P Q) (at level 70).
-Notation ensures := (lt_ensures guard eff r inv Inv_run).
-
-Let Fsv : fair g_sv r := proj1 F.
-Let Fsl : fair g_sl r := proj1 (proj2 F).
-Let Fwl : fair g_wl r := proj1 (proj2 (proj2 F)).
-Let Ftmo : fair g_tmo r := proj2 (proj2 (proj2 (proj2 (proj2 (proj2 F))))).
-
-(* -- the stream loop's goroutine finishes its three statements -- *)
-Lemma slA : (fun s => sl s = SExitA) ~> (fun s => sl s = SExitB).
-Proof. apply (ensures g_sl); auto; [ens1 | ens2 | intros s I H; exists SCloseHStop; cbn; auto]. Qed.
-Lemma slB : (fun s => sl s = SExitB) ~> (fun s => sl s = SExitC).
-Proof. apply (ensures g_sl); auto; [ens1 | ens2 | intros s I H; exists SStopPing; cbn; auto]. Qed.
-Lemma slC : (fun s => sl s = SExitC) ~> (fun s => sl s = SDone).
-Proof. apply (ensures g_sl); auto; [ens1 | ens2 | intros s I H; exists SCloseWStop; cbn; auto]. Qed.
-
-Lemma sl_finishes : sl_exited ~> (fun s => sl s = SDone).
-Proof.
-  intros i [H|[H|[H|H]]].
-  - eapply (lt_trans _ _ _ _ _ _ slA (lt_trans _ _ _ _ _ _ slB slC)); eauto.
-  - eapply (lt_trans _ _ _ _ _ _ slB slC); eauto.
-  - eapply slC; eauto.
-  - exists i; auto.
-Qed.
-
-Lemma sl_done_stable : stable guard eff inv (fun s => sl s = SDone).
-Proof. intros s a I H G; act_cases a; cbn in G |- *; break; congruence. Qed.
-Lemma sl_exited_stable : stable guard eff inv sl_exited.
-Proof.
-  unfold sl_exited; intros s a I H G; act_cases a; cbn in G |- *; break; auto;
-    destruct H as [H|[H|[H|H]]]; try congruence; auto.
-Qed.
-
-(* -- Serve's teardown, once readLoop has returned, ends within the drain timeout -- *)
-Lemma svStop : (fun s => sv s = VStop) ~> (fun s => sv s = VCloseRd).
-Proof. apply (ensures g_sv); auto; [ens1 | ens2 | intros s I H; exists VStopTimers; cbn; auto]. Qed.
-Lemma svCloseRd : (fun s => sv s = VCloseRd) ~> (fun s => sv s = VWait).
-Proof. apply (ensures g_sv); auto; [ens1 | ens2 | intros s I H; exists VCloseReader; cbn; auto]. Qed.
-Lemma svWait1 : (fun s => sv s = VWait /\ wdone s = false /\ tmo s = false) ~>
-                (fun s => sv s = VWait /\ (wdone s = true \/ tmo s = true)).
-Proof.
-  apply (ensures g_tmo); auto; [ens1 | ens2 | intros s I (H1 & H2 & H3); exists EDrainTimeout; cbn; auto].
-Qed.
-Lemma svWait2 : (fun s => sv s = VWait /\ (wdone s = true \/ tmo s = true)) ~> (fun s => sv s = VEnd).
-Proof.
-  apply (ensures g_sv); auto; [ens1 | ens2 | ].
-  - intros s I (H1 & [H2|H2]); [exists VWaitDone | exists VWaitTmo]; cbn; auto.
-Qed.
-Lemma svWait : (fun s => sv s = VWait) ~> (fun s => sv s = VEnd).
-Proof.
-  intros i H. destruct (wdone (st r i)) eqn:E1; [|destruct (tmo (st r i)) eqn:E2].
-  - apply svWait2; auto.
-  - apply svWait2; auto.
-  - eapply (lt_trans _ _ _ _ _ _ svWait1 svWait2); eauto.
-Qed.
-Lemma sv_teardown : (fun s => sv s = VStop \/ sv s = VCloseRd \/ sv s = VWait \/ sv s = VEnd) ~>
-                    (fun s => sv s = VEnd).
-Proof.
-  intros i [H|[H|[H|H]]].
-  - eapply (lt_trans _ _ _ _ _ _ svStop (lt_trans _ _ _ _ _ _ svCloseRd svWait)); eauto.
-  - eapply (lt_trans _ _ _ _ _ _ svCloseRd svWait); eauto.
-  - eapply svWait; eauto.
-  - exists i; auto.
-Qed.
-Lemma sv_end_stable : stable guard eff inv (fun s => sv s = VEnd).
-Proof. intros s a I H G; act_cases a; cbn in G |- *; break; congruence. Qed.
-
-(* -- the parking points of the read loop, once the stream loop's goroutine is through -- *)
-Lemma svWriteRet : (fun s => sv s = RWrite true /\ sl s = SDone) ~> (fun s => sv s = VStop).
-Proof.
-  apply (ensures g_sv); auto; [ens1 | ens2 | ].
-  intros s I (H1 & H2). exists (RWr ViaStop); cbn; repeat split; eauto.
-  destruct I. rewrite i_wstop0, H2; auto.
-Qed.
-Lemma svWriteGo : (fun s => sv s = RWrite false /\ sl s = SDone) ~> (fun s => sv s = RRead).
-Proof.
-  apply (ensures g_sv); auto; [ens1 | ens2 | ].
-  intros s I (H1 & H2). exists (RWr ViaStop); cbn; repeat split; eauto.
-  destruct I. rewrite i_wstop0, H2; auto.
-Qed.
-Lemma svFwd : (fun s => sv s = RFwd /\ sl s = SDone) ~> (fun s => sv s = RRead \/ sv s = VStop).
-Proof.
-  apply (ensures g_sv); auto; [ens1 | ens2 | ].
-  intros s I (H1 & H2). exists RFwdStop; cbn; repeat split; eauto.
-  destruct I. rewrite i_hstop0, H2; auto.
-Qed.
-(* reader is full: forward can only take the handlerStop case *)
-Lemma svFwdFull : (fun s => sv s = RFwd /\ cap <= rd s /\ sl s = SDone) ~> (fun s => sv s = VStop).
-Proof.
-  apply (ensures g_sv); auto; [ens1 | ens2 | ].
-  intros s I (H1 & H2 & H3). exists RFwdStop; cbn; repeat split; eauto.
-  destruct I. rewrite i_hstop0, H3; auto.
-Qed.
-
-(* -- once the socket is dead and writeStop closed, the write loop's goroutine ends -- *)
-Definition wl_rank_dead (p : wl_pc) : nat :=
-  match p with
-  | WDone => 0 | WCloseDone => 1 | WCloseSock => 2 | WFlush => 3 | WSock true => 3 | WDrain => 4
-  | WSock false => 5 | WSelect => 6
-  end.
-Definition wlP (s : state) : Prop := dead s = true /\ sl s = SDone.
-Lemma wlP_stable : stable guard eff inv wlP.
-Proof.
-  intros s a I (H1 & H2) G. split; [apply dead_stable; auto | eapply sl_done_stable; eauto].
-Qed.
-Lemma wl_step : forall n,
-  (fun s => (wlP s /\ wl s <> WDone) /\ wl_rank_dead (wl s) = n) ~>
-  (fun s => wlP s /\ wl_rank_dead (wl s) < n).
-Proof.
-  intros n. apply (ensures g_wl); auto.
-  - intros s a I ((HP & Hw) & Hn) G.
-    pose proof (wlP_stable s a I HP G) as HP'.
-    unfold wlP in *; act_cases a; cbn in G, HP' |- *; break;
-      first [ left; solve [repeat split; auto]
-            | right; (split; [auto|]); rw_pcs; injs; cbn in *; try lia ];
-      try congruence; try (destruct x; cbn in *; lia).
-  - intros s a I ((HP & Hw) & Hn) Ga G.
-    pose proof (wlP_stable s a I HP G) as HP'.
-    unfold wlP in *; act_cases a; cbn in Ga; try contradiction; cbn in G, HP' |- *; break;
-      (split; [auto|]); rw_pcs; injs; cbn in *; try lia;
-      try congruence; try (destruct x; cbn in *; lia).
-  - intros s I (((D & Hs) & Hw) & Hn). destruct I.
-    destruct (wl s) eqn:E; try congruence.
-    + exists WStop; cbn; repeat split; auto. rewrite i_wstop0, Hs; auto.
-    + exists WSockFail; cbn; repeat split; eauto.
-    + destruct (Nat.eq_dec (wr s) 0); [exists WDrainEmpty | exists WDrainTake]; cbn; repeat split; auto; lia.
-    + exists WFlushRet; cbn; repeat split; auto.
-    + exists WSockClose; cbn; auto.
-    + exists WDoneClose; cbn; auto.
-Qed.
-Lemma wl_finishes : wlP ~> (fun s => wl s = WDone).
-Proof.
-  apply (lt_variant guard eff r wlP (fun s => wl s = WDone) (fun s => wl_rank_dead (wl s))).
-  intros n i (HP & Hn).
-  assert (wl (st r i) = WDone \/ wl (st r i) <> WDone) as [E|E]
-    by (destruct (wl (st r i)); auto; right; congruence).
-  - exists i; split; auto.
-  - destruct (wl_step n i) as (j & Hj & HP' & Hlt); [repeat split; auto; apply HP|].
-    exists j; split; auto.
-Qed.
-
-(* -- S2: the read loop does not stay parked on reader or in sc.write -- *)
-Lemma sv_pc_dec : forall p q : sv_pc, {p = q} + {p <> q}.
-Proof. decide equality; apply bool_dec. Qed.
-
-Theorem unpark_forward :
-  (fun s => sl_exited s /\ sv s = RFwd) ~> (fun s => sv s <> RFwd).
-Proof.
-  intros i (Hx & Hs).
-  destruct (sl_finishes i Hx) as (j & Hj & Hd).
-  destruct (sv_pc_dec (sv (st r j)) RFwd) as [E|E]; [|exists j; auto].
-  destruct (svFwd j (conj E Hd)) as (k & Hk & Hq).
-  exists k; split; [lia|]. destruct Hq; congruence.
-Qed.
-
-Theorem unpark_write :
-  (fun s => sl_exited s /\ exists b, sv s = RWrite b) ~> (fun s => forall b, sv s <> RWrite b).
-Proof.
-  intros i (Hx & Hs).
-  destruct (sl_finishes i Hx) as (j & Hj & Hd).
-  destruct (sv (st r j)) eqn:E; try (exists j; split; [auto | intros; congruence]).
-  destruct ret.
-  - destruct (svWriteRet j (conj E Hd)) as (k & Hk & Hq). exists k; split; [lia|]. intros; congruence.
-  - destruct (svWriteGo j (conj E Hd)) as (k & Hk & Hq). exists k; split; [lia|]. intros; congruence.
-Qed.
-
-(* -- S2: once the read loop is on its way out, Serve returns and everything unwinds -- *)
-Lemma leaving_stable : stable guard eff inv (fun s => sl_exited s /\ sv_leaving cap s).
-Proof.
-  intros s a I (Hx & Hl) G. split; [eapply sl_exited_stable; eauto|].
-  unfold sv_leaving, sl_exited in *.
-  act_cases a; cbn in G |- *; break; auto;
-    try (destruct Hl as [Hl|[(Hl & Hr)|[Hl|[Hl|[Hl|Hl]]]]]; rw_pcs; injs; cbn; auto 10; try congruence; try lia; fail).
-  all: destruct Hx as [Hx|[Hx|[Hx|Hx]]]; congruence.
-Qed.
-
-Lemma leaving_to_teardown :
-  (fun s => sv_leaving cap s /\ sl s = SDone) ~>
-  (fun s => sv s = VStop \/ sv s = VCloseRd \/ sv s = VWait \/ sv s = VEnd).
-Proof.
-  intros i (Hl & Hd). destruct Hl as [Hl|[(Hl & Hr)|Hl]].
-  - destruct (svWriteRet i (conj Hl Hd)) as (k & Hk & Hq). exists k; auto.
-  - destruct (svFwdFull i (conj Hl (conj Hr Hd))) as (k & Hk & Hq). exists k; auto.
-  - exists i; auto.
-Qed.
-
-Lemma end_to_exited : (fun s => sv s = VEnd /\ sl s = SDone) ~> loops_exited.
-Proof.
-  intros i (H1 & H2).
-  assert (wlP (st r i)) as HP.
-  { split; auto. pose proof (Inv_run i) as I. destruct I. unfold dead.
-    rewrite i_svend0; [apply orb_true_r | rewrite H1; auto]. }
-  assert (stable guard eff inv (fun s => sv s = VEnd /\ sl s = SDone)) as HS.
-  { intros s a I (A & B) G; split; [eapply sv_end_stable | eapply sl_done_stable]; eauto. }
-  destruct (lt_stable guard eff r inv Inv_run _ _ _ wl_finishes HS i) as (j & Hj & Hw & H3 & H4); auto.
-  exists j; repeat split; auto.
-Qed.
-
-Theorem serve_returns :
-  (fun s => sl_exited s /\ sv_leaving cap s) ~> loops_exited.
-Proof.
-  intros i H.
-  destruct (lt_stable guard eff r inv Inv_run _ _ _ sl_finishes leaving_stable i)
-    as (j & Hj & Hd & Hx & Hl); [tauto|].
-  destruct (lt_stable guard eff r inv Inv_run _ _ _ leaving_to_teardown sl_done_stable j)
-    as (k & Hk & Ht & Hd'); [tauto|].
-  destruct (lt_stable guard eff r inv Inv_run _ _ _ sv_teardown sl_done_stable k)
-    as (m & Hm & He & Hd''); [tauto|].
-  destruct (end_to_exited m (conj He Hd'')) as (n & Hn & Hq).
-  exists n; split; auto; lia.
-Qed.
-
-(* -- S2/S1 under fairness: if the socket is dead (the peer closed, or the write loop closed it
-      after its drain), the read loop leaves whatever it is doing -- *)
-Definition sv_rank_dead (s : state) : nat :=
-  20 * b2n (rdy s) + sv_rank (sv s).
-Definition rdP (s : state) : Prop := dead s = true /\ sl s = SDone.
-Definition sv_reading (s : state) : Prop := sv s = RRead \/ sv s = RFwd \/ exists b, sv s = RWrite b.
-Definition sv_tearing (s : state) : Prop :=
-  sv s = VStop \/ sv s = VCloseRd \/ sv s = VWait \/ sv s = VEnd.
-
-Lemma rd_step : forall n,
-  (fun s => (rdP s /\ sv_reading s) /\ sv_rank_dead s = n) ~>
-  (fun s => sv_tearing s \/ ((rdP s /\ sv_reading s) /\ sv_rank_dead s < n)).
-Proof.
-  intros n. apply (ensures g_sv); auto.
-  - intros s a I ((HP & Hr) & Hn) G.
-    pose proof (wlP_stable s a I HP G) as HP'.
-    unfold rdP, wlP, sv_reading, sv_tearing, sv_rank_dead in *.
-    act_cases a; cbn -[Nat.mul] in G, HP' |- *; break;
-      first [ left; solve [repeat split; auto]
-            | right; destruct Hr as [Hr|[Hr|(b' & Hr)]]; rw_pcs; injs; try discriminate;
-              repeat match goal with b : bool |- _ => destruct b end; try rd_case ];
-      try (unfold dead in *; bools; cbn in *; congruence).
-  - intros s a I ((HP & Hr) & Hn) Ga G.
-    pose proof (wlP_stable s a I HP G) as HP'.
-    unfold rdP, wlP, sv_reading, sv_tearing, sv_rank_dead in *.
-    act_cases a; cbn in Ga; try contradiction; cbn -[Nat.mul] in G, HP' |- *; break;
-      destruct Hr as [Hr|[Hr|(b' & Hr)]]; rw_pcs; injs; try discriminate;
-      repeat match goal with b : bool |- _ => destruct b end; try rd_case;
-      try (unfold dead in *; bools; cbn in *; congruence).
-  - intros s I (((D & Hs) & Hr) & Hn). destruct I.
-    destruct Hr as [Hr|[Hr|(b' & Hr)]].
-    + exists RReadFail; cbn; auto.
-    + exists RFwdStop; cbn; repeat split; auto. rewrite i_hstop0, Hs; auto.
-    + exists (RWr ViaStop); cbn; repeat split; eauto. rewrite i_wstop0, Hs; auto.
-Qed.
-
-Lemma reading_or_tearing : forall s, sv_reading s \/ sv_tearing s.
-Proof. intros s; unfold sv_reading, sv_tearing; destruct (sv s); eauto 8. Qed.
-
-Lemma rd_finishes : (fun s => rdP s /\ sv_reading s) ~> sv_tearing.
-Proof.
-  apply (lt_variant guard eff r _ _ sv_rank_dead). intros n i H.
-  destruct (rd_step n i H) as (j & Hj & Hq). exists j; auto.
-Qed.
-
-Theorem dead_returns : (fun s => sl_exited s /\ dead s = true) ~> loops_exited.
-Proof.
-  intros i (Hx & Hd).
-  assert (stable guard eff inv (fun s => dead s = true)) as HS
-    by (intros s a I H G; apply dead_stable; auto).
-  destruct (lt_stable guard eff r inv Inv_run _ _ _ sl_finishes HS i) as (j & Hj & Hs & Hd'); [tauto|].
-  assert (exists k, j <= k /\ sv_tearing (st r k) /\ sl (st r k) = SDone) as (k & Hk & Ht & Hs').
-  { destruct (reading_or_tearing (st r j)) as [Hr|Ht]; [|exists j; auto].
-    destruct (lt_stable guard eff r inv Inv_run _ _ _ rd_finishes sl_done_stable j)
-      as (k & Hk & Ht & Hs'); [unfold rdP; tauto|]. exists k; auto. }
-  destruct (lt_stable guard eff r inv Inv_run _ _ _ sv_teardown sl_done_stable k)
-    as (m & Hm & He & Hs''); [tauto|].
-  destruct (end_to_exited m (conj He Hs'')) as (n & Hn & Hq).
-  exists n; split; auto; lia.
-Qed.
-End P.
-End SrvP2.
-
-Module SrvEx.
-Import Srv SrvP SrvP1 SrvP2.
-
-Section P.
-Variable cap : nat.
-Hypothesis cap_pos : 1 <= cap.
-Notation guard := (Srv.guard cap).
-Notation reachable := (Srv.reachable cap).
-
-(* a connection with both timers configured, just after Serve has started its goroutines *)
-Definition start (idle : bool) (b : nat) : state :=
-  mk RRead SSelect WSelect PArmed 0 0 0 false false false false false 0 0 idle 0 0 false false
-     false false false false b.
-Lemma start_init : forall i b, init (start i b).
-Proof. intros; unfold init; cbn; repeat split; auto. Qed.
-Lemma start_reach : forall i b, reachable (start i b).
-Proof. intros; apply reach_init, start_init. Qed.
-
-Ltac reach_by := apply reach_acts; [apply start_reach | unfold start; solve [guards_tac]].
-
-(* ---- finding (C10 iv): a connection error ends the stream loop; the peer neither reads nor
-   sends nor closes; the write loop is in the socket write of the drain; the read loop is in the
-   socket read.  Nothing can move except the peer (or the request timer, which nobody listens to
-   any more): the drain timeout is not even armed, because Serve is still inside readLoop. ---- *)
-Definition silent_trace : list act :=
-  [EPeerSend 1; RGetFwd; RFwdSend; STakeRd false false; SBodyWrite; SWr ViaQueue; SBodyBreak;
-   SCloseHStop; SStopPing; SCloseWStop; EPeerStall; WStop; WDrainTake].
-Definition silent_state : state := Eval vm_compute in run_acts eff silent_trace (start false 0).
-
-Lemma silent_reachable : reachable silent_state.
-Proof.
-  replace silent_state with (run_acts eff silent_trace (start false 0)) by (vm_compute; reflexivity).
-  unfold silent_trace. reach_by.
-Qed.
-
-Lemma silent_shape :
-  sv silent_state = RRead /\ sl silent_state = SDone /\ wl silent_state = WSock true /\
-  stalled silent_state = true /\ gone silent_state = false /\ sclosed silent_state = false.
-Proof. cbn; repeat split. Qed.
-
-Lemma silent_only_peer : forall a, guard a silent_state ->
-  (exists b, a = EPeerSend b) \/ a = EPeerClose \/ (exists b, a = EReqTimer b).
-Proof.
-  intros a G. unfold silent_state in G.
-  act_cases a; cbn in G; break; try discriminate; try lia; eauto.
-Qed.
-
-Theorem silent_peer_never_returns :
-  exists r : run guard eff,
-    fair_run cap r /\ reachable (st r 0) /\ sl_exited (st r 0) /\
-    forall i, sv (st r i) = RRead /\ wl (st r i) = WSock true /\ sv (st r i) <> VEnd.
-Proof.
-  exists (const_run guard eff silent_state).
-  assert (forall G : act -> Prop, (forall a, G a -> is_env a = false \/ a = EDrainTimeout) ->
-            fair G (const_run guard eff silent_state)) as K.
-  { intros G HG i. exists i; split; auto. right. intros a Ga Gd.
-    destruct (silent_only_peer a Gd) as [(b & ->)|[->|(b & ->)]];
-      destruct (HG _ Ga); discriminate. }
-  split; [|split; [|split]].
-  - repeat split; apply K; intros a Ga; act_cases a; cbn in Ga; try contradiction; auto.
-  - apply silent_reachable.
-  - right; right; right; reflexivity.
-  - intros i; cbn; repeat split; discriminate.
-Qed.
-
-(* ---- finding (C17): the ping timer survives the connection.  Its callback was running while
-   both pingTimer.Stop() calls were made, so its own Reset re-arms it after everything else is
-   gone; from then on it fires every interval, finds writeStop closed, and re-arms itself. ---- *)
-Definition ping_trace : list act :=
-  [EPingFire; EPeerClose; RReadFail; VStopTimers; VCloseReader; SRdClosed; SCloseHStop; SStopPing;
-   SCloseWStop; PWr ViaStop; PRearm; WStop; WDrainEmpty; WFlushRet; WSockClose; WDoneClose; VWaitDone].
-Definition ping_state : state := Eval vm_compute in run_acts eff ping_trace (start false 0).
-
-Theorem ping_timer_survives :
-  reachable ping_state /\ quiet ping_state /\ pg ping_state = PArmed /\ i_armed ping_state = false /\
-  guards guard eff [EPingFire; PWr ViaStop; PRearm] ping_state /\
-  run_acts eff [EPingFire; PWr ViaStop; PRearm] ping_state = ping_state.
-Proof.
-  split.
-  { replace ping_state with (run_acts eff ping_trace (start false 0)) by (vm_compute; reflexivity).
-    unfold ping_trace. reach_by. }
-  unfold ping_state. split; [|split; [|split; [|split]]]; try reflexivity.
-  - cbv; repeat split; auto; discriminate.
-  - guards_tac.
-Qed.
-
-(* ---- example for S1: the peer floods and vanishes; a handler is still in user code, a frame
-   is queued for the socket, the read loop is inside sc.write, the stream loop inside an
-   iteration ---- *)
-Definition s1_trace : list act :=
-  [EPeerSend 2; RGetFwd; RFwdSend; STakeRd true true; SBodyWrite; SWr ViaQueue; EPeerSend 0;
-   RGetPing; EPeerClose].
-Definition s1_state : state := Eval vm_compute in run_acts eff s1_trace (start true 0).
-Lemma s1_example :
-  reachable s1_state /\ dead s1_state = true /\ sv s1_state = RWrite false /\ sl s1_state = SBody /\
-  wr s1_state = 1 /\ h_run s1_state = 1 /\ ~ quiet s1_state.
-Proof.
-  split.
-  { replace s1_state with (run_acts eff s1_trace (start true 0)) by (vm_compute; reflexivity).
-    unfold s1_trace. reach_by. }
-  unfold s1_state; cbn; repeat split; auto. intros ((H & _) & _); discriminate.
-Qed.
-
-(* ---- example for S2: the idle timer has made the stream loop break; the peer has stopped
-   reading and sends a malformed frame; the read loop is inside writeGoAway -> sc.write ---- *)
-Definition s2_trace : list act :=
-  [EIdleFire; IWr ViaQueue; ICloseCloser; SCloser; EPeerStall; EPeerSend 0; RGetBad].
-Definition s2_state : state := Eval vm_compute in run_acts eff s2_trace (start true 0).
-Lemma s2_example :
-  reachable s2_state /\ sl_exited s2_state /\ sv_leaving cap s2_state /\
-  sv s2_state = RWrite true /\ wr s2_state = 1 /\ stalled s2_state = true.
-Proof.
-  split.
-  { replace s2_state with (run_acts eff s2_trace (start true 0)) by (vm_compute; reflexivity).
-    unfold s2_trace. reach_by. }
-  unfold s2_state, sv_leaving, sl_exited; cbn; repeat split; auto.
-Qed.
-End P.
-
-(* ---- example for S2 (cap = 1): the idle timer has made the stream loop break; the peer keeps
-   sending and has stopped reading; reader is full and the read loop is parked in forward ---- *)
-Definition s2b_trace : list act :=
-  [EPeerSend 0; RGetFwd; RFwdSend; EPeerSend 0; RGetFwd; EIdleFire; IWr ViaQueue; ICloseCloser;
-   SCloser; EPeerStall].
-Definition s2b_state : state := Eval vm_compute in run_acts eff s2b_trace (start true 0).
-Lemma s2b_example :
-  Srv.reachable 1 s2b_state /\ sl_exited s2b_state /\ sv_leaving 1 s2b_state /\
-  sv s2b_state = RFwd /\ rd s2b_state = 1 /\ stalled s2b_state = true.
-Proof.
-  split.
-  { replace s2b_state with (run_acts eff s2b_trace (start true 0)) by (vm_compute; reflexivity).
-    unfold s2b_trace. apply reach_acts; [apply start_reach | unfold start; solve [guards_tac]]. }
-  unfold s2b_state, sv_leaving, sl_exited; cbn; repeat split; auto.
-Qed.
-End SrvEx.
-
-Module CliP.
-Import Cli.
-
-Ltac break :=
-  repeat match goal with
-         | H : _ /\ _ |- _ => destruct H
-         | H : exists _, _ |- _ => destruct H
-         end.
-Ltac rw_pcs :=
-  repeat match goal with
-         | H : xc ?s = _ |- _ => rewrite H in *; clear H
-         | H : tx ?s = _ |- _ => rewrite H in *; clear H
-         | H : wl ?s = _ |- _ => rewrite H in *; clear H
-         | H : rl ?s = _ |- _ => rewrite H in *; clear H
-         | H : uc ?s = _ |- _ => rewrite H in *; clear H
-         end.
-Ltac rwk :=
-  repeat match goal with
-         | H : xc ?s = _ |- _ => progress (rewrite H in * )
-         | H : tx ?s = _ |- _ => progress (rewrite H in * )
-         | H : wl ?s = _ |- _ => progress (rewrite H in * )
-         | H : rl ?s = _ |- _ => progress (rewrite H in * )
-         | H : uc ?s = _ |- _ => progress (rewrite H in * )
-         end.
-Ltac bools :=
-  repeat match goal with
-         | H : ?f ?s = true |- _ => rewrite H in *; clear H
-         | H : ?f ?s = false |- _ => rewrite H in *; clear H
-         end.
-
-Definition lx_of (hw hr : hold) : lx_t :=
-  match hw, hr with HX, _ => LxWl | _, HX => LxRl | _, _ => LxNone end.
-Definition bw_of_state (s : state) : bw_t :=
-  match wl s, rl s, uc s with
-  | LWrite _, _, _ | LClose CWrite, _, _ => BwWl
-  | _, RClose CWrite, _ => BwRl
-  | _, _, UClose CWrite => BwUc
-  | _, _, _ => BwNone
-  end.
-Definition bcount (s : state) : nat :=
-  b2n (match wl s with LWrite _ | LClose CWrite => true | _ => false end) +
-  b2n (match rl s with RClose CWrite => true | _ => false end) +
-  b2n (match uc s with UClose CWrite => true | _ => false end).
-Definition is_mid (o : option close_pc) : bool :=
-  match o with Some CDone | Some CLock | Some CWrite => true | _ => false end.
-Definition is_cdone (o : option close_pc) : bool :=
-  match o with Some CDone => true | _ => false end.
-Definition is_late (o : option close_pc) : bool :=
-  match o with Some CLock | Some CWrite => true | _ => false end.
-Definition midn (s : state) : nat :=
-  b2n (is_mid (cpc 0 s)) + b2n (is_mid (cpc 1 s)) + b2n (is_mid (cpc 2 s)).
-Definition wl_torn (p : wl_pc) : bool := match p with LT2 | LT3 | LDone => true | _ => false end.
-Definition wl_drained (p : wl_pc) : bool := match p with LT3 | LDone => true | _ => false end.
-Definition wl_early (p : wl_pc) : bool := match p with LIter | LAcq => true | _ => false end.
-Definition waiting (p : xc_pc) : bool :=
-  match p with KW1 | KW2 | KLck | KSelf | KErr => true | _ => false end.
-Definition tx_fired (p : tx_pc) : bool := match p with TDel | TTake | TOut | TDone => true | _ => false end.
-Definition is_ret (p : xc_pc) : bool := match p with KRet => true | _ => false end.
-
-Section P.
-Variable cap : nat.
-Notation guard := (Cli.guard cap).
-Notation reachable := (Cli.reachable cap).
-
-Record inv1 (s : state) : Prop := {
-  i_lx : lx s = lx_of (wl_hold s) (rl_hold s);
-  i_lx2 : wl_hold s = HX -> rl_hold s = HX -> False;
-  i_bw : bw s = bw_of_state s;
-  i_bw1 : bcount s <= 1 }.
-Record inv2 (s : state) : Prop := {
-  i_done : done s = true -> closed s = true;
-  i_mid0 : closed s = false -> midn s = 0;
-  i_mid1 : midn s <= 1;
-  i_cd : closed s && negb (done s) = is_cdone (cpc 0 s) || is_cdone (cpc 1 s) || is_cdone (cpc 2 s);
-  i_late0 : is_late (cpc 0 s) = true -> done s = true;
-  i_late1 : is_late (cpc 1 s) = true -> done s = true;
-  i_late2 : is_late (cpc 2 s) = true -> done s = true;
-  i_scl : sclosed s = true -> done s = true;
-  i_raced : wl_torn (wl s) = true -> done s = true \/ raced s = true }.
-Record inv3 (s : state) : Prop := {
-  i_in : inq s + xin s <= cap;
-  i_out : outq s <= cap }.
-Record inv4 (s : state) : Prop := {
-  i_w1 : xc s = KW1 -> xloc s = XOut;
-  i_w2 : xc s = KW2 -> xloc s <> XOut;
-  i_w3 : xc s = KLck -> xloc s <> XOut;
-  i_sid : xsid s = true -> xloc s = XTab \/ xloc s = XGone;
-  i_acq : wl s = LAcq -> xloc s = XWl \/ xloc s = XTab \/ xloc s = XGone;
-  i_res : xres s = true -> xc s = KRet;
-  i_xdone : waiting (xc s) = true -> xdone s = true -> xerr s = true;
-  i_gone : waiting (xc s) = true -> xloc s = XGone -> xerr s = true;
-  i_fired : waiting (xc s) = true -> tx_fired (tx s) = true -> xerr s = true;
-  i_out_err : xc s = KErr -> xloc s = XOut -> xerr s = true;
-  i_xwl : xloc s = XWl -> wl_early (wl s) = true;
-  i_drained : wl_drained (wl s) = true -> xloc s <> XTab /\ xloc s <> XWl;
-  i_j : xc s = KErr -> xloc s = XIn -> wl s = LDone -> raced s = true \/ xerr s = true }.
-Definition inv (s : state) : Prop := inv1 s /\ inv2 s /\ inv3 s /\ inv4 s.
-
-Ltac unf := unfold lx_of, bcount, wl_hold, rl_hold, rl_k, bw_of_state, midn, cpc, xin, resolveX, release, set_cpc, end_cpc,
-  bw_of, dead in *.
-Ltac act_cases a :=
-  destruct a;
-  try match goal with p : nat |- _ => destruct p as [|[|[|p]]] end.
-Ltac dm :=
-  match goal with
-  | |- context[match ?x with _ => _ end] =>
-      lazymatch x with
-      | context[match _ with _ => _ end] => fail
-      | _ => destruct x eqn:?
-      end
-  | H : context[match ?x with _ => _ end] |- _ =>
-      lazymatch x with
-      | context[match _ with _ => _ end] => fail
-      | _ => destruct x eqn:?
-      end
-  end.
-Ltac easy_fin := solve [auto | congruence | lia | tauto | (intuition congruence) ].
-Ltac fwd :=
-  repeat match goal with
-         | H : ?A -> _, H' : ?A |- _ => specialize (H H')
-         | H : ?x = ?x -> _ |- _ => specialize (H eq_refl)
-         end.
-Ltac rwx :=
-  repeat match goal with
-         | H : xloc ?s = _ |- _ => progress (rewrite H in * )
-         end.
-Ltac fin := cbn in *; intros; subst; rwk; rwx; fwd; rwk; cbn in *; rewrite ?orb_false_r in *;
-  first [ easy_fin | dm; fin ].
-Ltac prep G := cbn in G; break; try lia;
-  repeat match goal with b : bool |- _ => destruct b | h : hold |- _ => destruct h end;
-  unf; rwk; cbn in *; unf;
-  try match goal with |- context[xres ?s] => destruct (xres s) eqn:? end; cbn in *.
-
-Lemma inv_init : forall s, init cap s -> inv s.
-Proof.
-  unfold init; intros s H; break.
-  repeat split; unfold bcount, midn, bw_of_state, cpc, wl_hold, rl_hold, xin in *; rw_pcs; bools; cbn; auto;
-    try congruence; try lia; try (intros; discriminate).
-  all: try (rewrite H4; lia); try (destruct H0 as [-> | ->]; cbn; intros; discriminate).
-  all: try (rewrite H4; intros; discriminate).
-Qed.
-
-Lemma inv1_step : forall s a, inv1 s -> guard a s -> inv1 (eff a s).
-Proof.
-  intros s a I G. destruct I.
-  act_cases a; prep G.
-  all: constructor; cbn; unf; cbn; rwk; cbn; auto; try congruence; try lia.
-  all: try (timeout 20 fin).
-Qed.
-
-Lemma inv2_step : forall s a, inv2 s -> guard a s -> inv2 (eff a s).
-Proof.
-  intros s a I G. destruct I.
-  act_cases a; prep G.
-  all: constructor; cbn; unf; cbn; rwk; cbn; auto; try congruence; try lia.
-  all: try (timeout 20 fin).
-  all: try (repeat match goal with H : match _ with _ => _ end = Some _ |- _ => rewrite H in * end;
-            destruct (done s) eqn:?; destruct (closed s) eqn:?; destruct (raced s) eqn:?;
-            timeout 20 fin).
-Qed.
-
-Lemma inv3_step : forall s a, inv3 s -> guard a s -> inv3 (eff a s).
-Proof.
-  intros s a I G. destruct I.
-  act_cases a; prep G.
-  all: constructor; cbn; unf; cbn; rwk; cbn; auto; try congruence; try lia.
-  all: try (timeout 20 fin).
-Qed.
-
-End P.
-End CliP.
-
-Module CliPb.
-Import Cli CliP.
-Ltac unf := unfold lx_of, bcount, wl_hold, rl_hold, rl_k, bw_of_state, midn, cpc, xin, resolveX, release, set_cpc, end_cpc,
-  bw_of, dead in *.
-Ltac act_cases a :=
-  destruct a;
-  try match goal with p : nat |- _ => destruct p as [|[|[|p]]] end.
-Ltac dm :=
-  match goal with
-  | |- context[match ?x with _ => _ end] =>
-      lazymatch x with
-      | context[match _ with _ => _ end] => fail
-      | _ => destruct x eqn:?
-      end
-  | H : context[match ?x with _ => _ end] |- _ =>
-      lazymatch x with
-      | context[match _ with _ => _ end] => fail
-      | _ => destruct x eqn:?
-      end
-  end.
-Ltac easy_fin := solve [auto | congruence | lia | tauto | (intuition congruence) ].
-Ltac fwd :=
-  repeat match goal with
-         | H : ?A -> _, H' : ?A |- _ => specialize (H H')
-         | H : ?x = ?x -> _ |- _ => specialize (H eq_refl)
-         end.
-Ltac rwx :=
-  repeat match goal with
-         | H : xloc ?s = _ |- _ => progress (rewrite H in * )
-         end.
-Ltac fin := cbn in *; intros; subst; rwk; rwx; fwd; rwk; cbn in *; rewrite ?orb_false_r in *;
-  first [ easy_fin | dm; fin ].
-Ltac prep G := cbn in G; break; try lia;
-  repeat match goal with b : bool |- _ => destruct b | h : hold |- _ => destruct h end;
-  unf; rwk; cbn in *; unf;
-  try match goal with |- context[xres ?s] => destruct (xres s) eqn:? end; cbn in *.
-
-
-Section P.
-Variable cap : nat.
-Notation guard := (Cli.guard cap).
-Lemma inv4_step : forall s a, inv2 s -> inv4 s -> guard a s -> inv4 (eff a s).
-Proof.
-  intros s a I2 I G. destruct I. pose proof (i_raced _ I2) as Hr. clear I2.
-  act_cases a; prep G.
-  all: constructor; cbn; unf; cbn; rwk; cbn; auto; try congruence; try lia.
-  all: try (timeout 20 fin).
-Qed.
-
-End P.
-End CliPb.
-
-Module CliP2.
-Import Cli CliP CliPb.
-
-Ltac unf := unfold lx_of, bcount, wl_hold, rl_hold, rl_k, bw_of_state, midn, cpc, xin, resolveX, release, set_cpc, end_cpc,
-  bw_of, dead in *.
-Ltac act_cases a :=
-  destruct a;
-  try match goal with p : nat |- _ => destruct p as [|[|[|p]]] end.
-Ltac dm :=
-  match goal with
-  | |- context[match ?x with _ => _ end] =>
-      lazymatch x with
-      | context[match _ with _ => _ end] => fail
-      | _ => destruct x eqn:?
-      end
-  | H : context[match ?x with _ => _ end] |- _ =>
-      lazymatch x with
-      | context[match _ with _ => _ end] => fail
-      | _ => destruct x eqn:?
-      end
-  end.
-Ltac easy_fin := solve [auto | congruence | lia | tauto | (intuition congruence) ].
-Ltac fwd :=
-  repeat match goal with
-         | H : ?A -> _, H' : ?A |- _ => specialize (H H')
-         | H : ?x = ?x -> _ |- _ => specialize (H eq_refl)
-         end.
-Ltac rwx :=
-  repeat match goal with
-         | H : xloc ?s = _ |- _ => progress (rewrite H in * )
-         end.
-Ltac fin := cbn in *; intros; subst; rwk; rwx; fwd; rwk; cbn in *; rewrite ?orb_false_r in *;
-  first [ easy_fin | dm; fin ].
-Ltac prep G := cbn in G; break; try lia;
-  repeat match goal with b : bool |- _ => destruct b | h : hold |- _ => destruct h end;
-  unf; rwk; cbn in *; unf;
-  try match goal with |- context[xres ?s] => destruct (xres s) eqn:? end; cbn in *.
-
-
-Section P.
-Variable cap : nat.
-Notation guard := (Cli.guard cap).
-Notation reachable := (Cli.reachable cap).
-Notation inv := (CliP.inv cap).
-
-Lemma inv_step : forall s a, inv s -> guard a s -> inv (eff a s).
-Proof.
-  intros s a (I1 & I2 & I3 & I4) G.
-  split; [|split; [|split]];
-    eauto using (inv1_step cap), (inv2_step cap), (inv3_step cap), (CliPb.inv4_step cap).
-Qed.
-
-Lemma reachable_inv : forall s, reachable s -> inv s.
-Proof. induction 1; auto using (inv_init cap), inv_step. Qed.
-
-(* ---- S3, locks ---- *)
-(* the static table respects the order, and never nests a mutex in itself *)
-Theorem lock_order : forall a o i, In (o, i) (nest a) -> mrank o < mrank i.
-Proof.
-  intros a o i H. destruct a; cbn in H; try contradiction;
-    try (destruct h; cbn in H; try contradiction);
-    repeat (destruct H as [H|H]; [inversion H; subst; cbn; lia|]); contradiction.
-Qed.
-
-(* whoever is parked on a mutex holds only smaller ones: in particular not that one *)
-Theorem ordered_reachable : forall s, reachable s -> ordered (wants s) (holds s).
-Proof.
-  intros s R p m m' Hw Hh. destruct (reachable_inv s R) as ([] & _).
-  unfold wants, holds in *. unf.
-  destruct p as [|[|[|[|[|]]]]]; try contradiction; try discriminate.
-  - destruct (wl s) eqn:E; try discriminate; cbn in *;
-      try (destruct c; try discriminate); inversion Hw; subst;
-      destruct Hh as [(-> & Hh)|[(-> & Hh)|(-> & Hh)]]; try lia; try discriminate;
-      rewrite Hh in *; try discriminate;
-      repeat match goal with H : context[match ?x with _ => _ end] |- _ => destruct x end;
-      try discriminate.
-  - destruct (rl s) eqn:E; try discriminate; cbn in *;
-      try (destruct c; try discriminate); inversion Hw; subst;
-      destruct Hh as [(-> & Hh)|[(-> & Hh)|(-> & Hh)]]; try lia; try discriminate;
-      rewrite Hh in *; try discriminate;
-      repeat match goal with H : context[match ?x with _ => _ end] |- _ => destruct x end;
-      try discriminate.
-  - destruct (uc s) eqn:E; try discriminate. destruct c; try discriminate. inversion Hw; subst.
-    destruct Hh as (-> & Hh). rewrite Hh in *.
-    repeat match goal with H : context[match ?x with _ => _ end] |- _ => destruct x end;
-      try discriminate.
-Qed.
-
-Theorem no_wait_cycle : forall s, reachable s -> ~ wait_cycle (wants s) (holds s).
-Proof. intros s R. apply ordered_no_wait_cycle, ordered_reachable; auto. Qed.
-
-(* no goroutine is parked on a mutex it holds itself *)
-Theorem no_self_wait : forall s p m, reachable s -> wants s p = Some m -> ~ holds s p m.
-Proof.
-  intros s p m R Hw Hh. pose proof (ordered_reachable s R p m m Hw Hh). lia.
-Qed.
-End P.
-End CliP2.
-
-Module CliEx.
-Import Cli.
-
-Ltac break :=
-  repeat match goal with
-         | H : _ /\ _ |- _ => destruct H
-         | H : exists _, _ |- _ => destruct H
-         end.
-Ltac act_cases a :=
-  destruct a;
-  try match goal with p : nat |- _ => destruct p as [|[|[|p]]] end.
-
-Section P.
-Variable cap : nat.
-Hypothesis cap_pos : 1 <= cap.
-Notation guard := (Cli.guard cap).
-Notation reachable := (Cli.reachable cap).
-
-(* X has just been handed to Conn.Write; q requests are queued in c.in, o frames in c.out *)
-Definition start (t : tx_pc) (q o : nat) : state :=
-  mk KW1 t LSel RRead UIdle XOut false false false false false LxNone BwNone false false q o
-     false false 0 false false false false 0 false.
-Lemma start_reach : forall t q o, (t = TArmed \/ t = TOff) -> q <= cap -> o <= cap ->
-  reachable (start t q o).
-Proof. intros; apply reach_init; unfold init; cbn; repeat split; auto. Qed.
-
-(* the only things that can still happen in a state *)
-Definition only_env (s : state) : Prop := forall a, guard a s -> is_env a = true.
-
-(* ---- F1: Conn.Close behind a socket write that does not return ---- *)
-Definition f1_trace : list act :=
-  [KSend; KCheckOpen; LSelInX 1; LGoAcqX; LAcqX; LLock; EPeerStall; EUserClose; CCasWin 2;
-   CCloseDone 2].
-Definition f1_state : state := Eval vm_compute in run_acts eff f1_trace (start TOff 0 0).
-Theorem close_behind_stuck_write :
-  reachable f1_state /\ only_env f1_state /\
-  wl f1_state = LWrite HX /\ uc f1_state = UClose CLock /\ done f1_state = true /\
-  sclosed f1_state = false /\ xc f1_state = KErr /\ xerr f1_state = false.
-Proof.
-  split.
-  { replace f1_state with (run_acts eff f1_trace (start TOff 0 0)) by (vm_compute; reflexivity).
-    apply reach_acts; [apply start_reach; auto; lia | unfold start, f1_trace; guards_tac]. }
-  split; [|cbn; repeat split].
-  intros a G. unfold f1_state in G. act_cases a; cbn in G; break; try discriminate; try lia; auto.
-Qed.
-
-Ltac reach_from t q o tr :=
-  match goal with |- reachable ?st =>
-    replace st with (run_acts eff tr (start t q o)) by (cbv -[Init.Nat.pred Init.Nat.add]; reflexivity);
-    apply reach_acts; [apply start_reach; auto; lia | unfold start, tr; solve [guards_tac]]
-  end.
-Ltac only_env_tac st :=
-  let a := fresh "a" in let G := fresh "G" in
-  intros a G; unfold st in G; act_cases a; cbn in G; break; try discriminate; try lia; auto.
-
-(* ... and with the request's timeout armed: the timer resolves the request, the caller receives
-   the error, and then parks in takeBack on the Ctx.lck the write loop holds: RoundTrip does not
-   return either *)
-Definition f1b_trace : list act :=
-  f1_trace ++ [ETimerFire; TResolve; KRecv; TDelSkip; TTakeReq; TOutSend].
-Definition f1b_state : state := Eval vm_compute in run_acts eff f1b_trace (start TArmed 0 0).
-Theorem roundtrip_stuck_in_takeback :
-  reachable f1b_state /\ only_env f1b_state /\
-  xc f1b_state = KTb /\ lx f1b_state = LxWl /\ wl f1b_state = LWrite HX /\ tx f1b_state = TDone.
-Proof.
-  split; [reach_from TArmed 0 0 f1b_trace|].
-  split; [only_env_tac f1b_state | cbn; repeat split].
-Qed.
-
-(* ---- F2: Conn.Write parked on a full c.in behind a write loop that is stuck in a socket write;
-   nobody closes c.done; the request's own timeout fires, resolves, and changes nothing: the
-   caller is not yet listening on ctx.Err ---- *)
-Definition f2_trace : list act :=
-  [LSelInO 1; LGoLockB HO; LLock; EPeerStall; EOtherCaller; OSend; ETimerFire; TResolve].
-Definition f2_state : state := Eval cbv -[Init.Nat.pred Init.Nat.add] in run_acts eff f2_trace (start TArmed cap 0).
-
-Theorem write_parked_past_timeout :
-  reachable f2_state /\ only_env f2_state /\
-  xc f2_state = KW1 /\ xerr f2_state = true /\ tx f2_state = TDone /\ done f2_state = false /\
-  wl f2_state = LWrite HO /\ inq f2_state = cap.
-Proof.
-  split; [reach_from TArmed cap 0 f2_trace|].
-  split; [only_env_tac f2_state | cbn; repeat split; lia].
-Qed.
-
-(* ---- F5: a wait cycle through a mutex and a channel, with a healthy peer.  The read loop holds
-   X's Ctx.lck in dispatch and is parked in writeOut because c.out is full; the write loop, the
-   only receiver of c.out, is parked in sendPending -> acquireFor on that Ctx.lck.  c.done is
-   open, so writeOut has no way out. ---- *)
-Definition f5_trace : list act :=
-  [KSend; KCheckOpen; LSelInX 2; LGoAcqX; LAcqX; LLock; LWriteOk; EPeerSend; RGet; RGoAcqX; RAcqX;
-   RHoldOut; LGoAcqX].
-Definition f5_state : state := Eval cbv -[Init.Nat.pred Init.Nat.add] in run_acts eff f5_trace (start TOff 0 cap).
-Theorem out_full_lock_cycle :
-  reachable f5_state /\ only_env f5_state /\
-  stalled f5_state = false /\ gone f5_state = false /\ done f5_state = false /\
-  wl f5_state = LAcq /\ rl f5_state = ROutL HX 1 /\ lx f5_state = LxRl /\ outq f5_state = cap /\
-  xc f5_state = KErr /\ xerr f5_state = false.
-Proof.
-  split; [reach_from TOff 0 cap f5_trace|].
-  split; [only_env_tac f5_state | cbn; repeat split; lia].
-Qed.
-
-(* ---- F4: Close is not atomic.  The read loop wins the CAS and is preempted before
-   close(c.done); the write loop leaves on a write error, its own c.Close() returns io.EOF at
-   once, it drains an empty c.in and exits; X is then sent on c.in, Write's second select still
-   sees c.done open; the read loop finishes Close.  Both loops are gone and X sits in c.in. ---- *)
-Definition f4_trace : list act :=
-  [EPeerClose; RReadFail; RDeferClose; CCasWin 1; ETick; LSelTick 1; LGoLockB HNone; LLock; LWriteFail false;
-   LSetErr; CCasLose 0; LT2Take; LT3End; KSend; KCheckOpen; CCloseDone 1; CLockB 1; CWriteRet 1].
-Definition f4_state : state := Eval vm_compute in run_acts eff f4_trace (start TOff 0 0).
-Theorem stranded_by_close_race :
-  reachable f4_state /\ loops_exited f4_state /\ done f4_state = true /\
-  xc f4_state = KErr /\ xloc f4_state = XIn /\ xerr f4_state = false /\ tx f4_state = TOff /\
-  raced f4_state = true /\
-  (forall a, guard a f4_state -> a = EPeerStall \/ a = ETick \/ a = EUserClose).
-Proof.
-  split; [reach_from TOff 0 0 f4_trace|].
-  unfold loops_exited; cbn. repeat (split; [solve [auto]|]).
-  intros a G; unfold f4_state in G; act_cases a; cbn in G; break; try discriminate; try lia; auto.
-Qed.
-
-(* ---- example for the liveness theorem: Client.Close has just won the CAS while the write loop
-   is writing X's HEADERS under X's Ctx.lck and bwLck, and the read loop is in dispatch for another
-   request; the peer is reading ---- *)
-Definition s3_trace : list act :=
-  [KSend; KCheckOpen; LSelInX 2; LGoAcqX; LAcqX; LLock; EPeerSend; RGet; RGoHoldO; EUserClose;
-   CCasWin 2].
-Definition s3_state : state := Eval vm_compute in run_acts eff s3_trace (start TArmed 0 0).
-Lemma s3_example :
-  reachable s3_state /\ closed s3_state = true /\ done s3_state = false /\ stalled s3_state = false /\
-  wl s3_state = LWrite HX /\ rl s3_state = RHold HO 2 /\ uc s3_state = UClose CDone /\
-  xc s3_state = KErr /\ xloc s3_state = XTab /\ xerr s3_state = false.
-Proof.
-  split; [reach_from TArmed 0 0 s3_trace | cbn; repeat split].
-Qed.
-End P.
-End CliEx.
-
-Module CliL.
-Import Cli CliP CliP2.
-
-Ltac unf := unfold lx_of, bcount, wl_hold, rl_hold, rl_k, bw_of_state, midn, cpc, xin, resolveX, release,
-  set_cpc, end_cpc, bw_of, dead in *.
-Ltac act_cases a :=
-  destruct a;
-  try match goal with
-      | G : Cli.guard _ (CCasWin ?p) _ |- _ => destruct p as [|[|[|p]]]
-      | G : Cli.guard _ (CCasLose ?p) _ |- _ => destruct p as [|[|[|p]]]
-      | G : Cli.guard _ (CCloseDone ?p) _ |- _ => destruct p as [|[|[|p]]]
-      | G : Cli.guard _ (CLockB ?p) _ |- _ => destruct p as [|[|[|p]]]
-      | G : Cli.guard _ (CWriteRet ?p) _ |- _ => destruct p as [|[|[|p]]]
-      end.
-Ltac params :=
-  repeat match goal with b : bool |- _ => destruct b | h : hold |- _ => destruct h end.
-Ltac dm :=
-  match goal with
-  | |- context[match ?x with _ => _ end] =>
-      lazymatch x with
-      | context[match _ with _ => _ end] => fail
-      | _ => destruct x eqn:?
-      end
-  | H : context[match ?x with _ => _ end] |- _ =>
-      lazymatch x with
-      | context[match _ with _ => _ end] => fail
-      | _ => destruct x eqn:?
-      end
-  end.
-Ltac easy_fin := solve [auto | congruence | lia | tauto | (intuition congruence) ].
-Ltac fwd :=
-  repeat match goal with
-         | H : ?A -> _, H' : ?A |- _ => specialize (H H')
-         | H : ?x = ?x -> _ |- _ => specialize (H eq_refl)
-         end.
-Ltac rwx :=
-  repeat match goal with
-         | H : xloc ?s = _ |- _ => progress (rewrite H in * )
-         end.
-Ltac fin := cbn in *; intros; subst; rwk; rwx; fwd; rwk; cbn in *; rewrite ?orb_false_r in *;
-  first [ easy_fin | dm; fin ].
-Ltac prep G := cbn in G; break; try lia; params; unf; rwk; cbn in *; unf;
-  try match goal with |- context[xres ?s] => destruct (xres s) eqn:? end; cbn in *.
-
-Record inv5 (s : state) : Prop := {
-  i_fin : done s = true ->
-          sclosed s = true \/ is_late (cpc 0 s) || is_late (cpc 1 s) || is_late (cpc 2 s) = true;
-  i_k : rl_k s <= 2 }.
-
-Section P.
-Variable cap : nat.
-Hypothesis cap_pos : 1 <= cap.
-Notation guard := (Cli.guard cap).
-Notation reachable := (Cli.reachable cap).
-Notation inv := (CliP.inv cap).
-
-Lemma inv5_init : forall s, init cap s -> inv5 s.
-Proof.
-  unfold init; intros s H; break. constructor; unf; rwk; cbn; auto; congruence.
-Qed.
-
-Lemma inv5_step : forall s a, inv5 s -> guard a s -> inv5 (eff a s).
-Proof.
-  intros s a I G. destruct I.
-  act_cases a; prep G.
-  all: constructor; cbn; unf; cbn; rwk; cbn; auto; try congruence; try lia.
-  all: try (timeout 20 fin).
-Qed.
-End P.
-End CliL.
-
-Module CliL2.
-Import Cli CliP CliP2 CliL.
-
-Definition Inv (cap : nat) (s : state) : Prop :=
-  CliP.inv cap s /\ inv5 s /\ (stalled s = false \/ dead s = true).
-
-Ltac easy_fin ::= solve [auto | congruence | lia | tauto | (intuition congruence)
-                         | (intuition (try congruence; try lia)) ].
-Ltac xr := try match goal with |- context[xres ?s] => destruct (xres s) eqn:? end; cbn in *.
-(* obligations of the ensures rules: P and Q speak about a few fields *)
-Ltac solve_side := cbn; unf; rwk; cbn;
-  first [ solve [repeat split; auto; try congruence; try lia]
-        | match goal with |- _ \/ _ => first [ solve [left; solve_side] | solve [right; solve_side] ] end
-        | solve [timeout 10 fin] ].
-Ltac cens1 :=
-  let s := fresh "s" in let a := fresh "a" in let I := fresh "I" in
-  let HP := fresh "HP" in let G := fresh "G" in
-  intros s a I HP G; clear I; act_cases a; cbn in G; break; try lia; params; unf; rwk; cbn in *; unf; xr;
-  try congruence;
-  first [ left; solve [solve_side] | right; solve [solve_side] | idtac ].
-Ltac cens1_w1 :=
-  let s := fresh "s" in let a := fresh "a" in let I := fresh "I" in
-  let HP := fresh "HP" in let G := fresh "G" in
-  intros s a I HP G;
-  assert (xc s = KW1 -> xloc s = XOut) by (destruct I as ((_ & _ & _ & I4) & _); apply I4);
-  clear I; act_cases a; cbn in G; break; try lia; params; unf; rwk; fwd; rwx; cbn in *; unf; xr;
-  try congruence;
-  first [ left; solve [solve_side] | right; solve [solve_side] | idtac ].
-Ltac cens2 :=
-  let s := fresh "s" in let a := fresh "a" in let I := fresh "I" in
-  let HP := fresh "HP" in let G := fresh "G" in let Ga := fresh "Ga" in
-  intros s a I HP Ga G; clear I; act_cases a; cbn in Ga; try contradiction; try lia;
-  cbn in G; break; try lia; params; unf; rwk; cbn in *; unf; xr; try congruence; try solve [solve_side].
-
-Section P.
-Variable cap : nat.
-Hypothesis cap_pos : 1 <= cap.
-Notation guard := (Cli.guard cap).
-Notation reachable := (Cli.reachable cap).
-Notation inv := (CliP.inv cap).
-
-Variable r : run guard eff.
-Hypothesis F : fair_run cap r.
-Hypothesis R0 : reachable (st r 0).
-Hypothesis NS : forall i, stalled (st r i) = false \/ dead (st r i) = true.
-
-Lemma inv5_reach : forall s, reachable s -> inv5 s.
-Proof. induction 1; auto using (inv5_init cap), (inv5_step cap). Qed.
-
-Lemma Inv_run : forall i, Inv cap (st r i).
-Proof.
-  intros i. pose proof (reach_run guard eff _ r R0 i) as R.
-  split; [apply reachable_inv; auto | split; [apply inv5_reach; auto | apply NS]].
-Qed.
-
-Notation "P ~> Q" := (leadsto r P Q) (at level 70).
-Notation ensures := (lt_ensures guard eff r (Inv cap) Inv_run).
-Notation ensures_s := (lt_ensures_s guard eff r (Inv cap) Inv_run).
-
-Let Fx : sfair g_x r := proj1 F.
-Let Fo : sfair g_o r := proj1 (proj2 F).
-Let Ft : sfair g_t r := proj1 (proj2 (proj2 F)).
-Let Fwl : sfair g_wl r := proj1 (proj2 (proj2 (proj2 F))).
-Let Frl : sfair g_rl r := proj1 (proj2 (proj2 (proj2 (proj2 F)))).
-Let Fuc : sfair g_uc r := proj1 (proj2 (proj2 (proj2 (proj2 (proj2 F))))).
-Let Fsd : sfair g_seldone r := proj1 (proj2 (proj2 (proj2 (proj2 (proj2 (proj2 F)))))).
-Let Fbody : sfair g_body r := proj2 (proj2 (proj2 (proj2 (proj2 (proj2 (proj2 F)))))).
-Let Wx := sfair_fair guard eff r g_x Fx.
-Let Wwl := sfair_fair guard eff r g_wl Fwl.
-Let Wrl := sfair_fair guard eff r g_rl Frl.
-Let Wuc := sfair_fair guard eff r g_uc Fuc.
-Let Wbody := sfair_fair guard eff r g_body Fbody.
-
-Definition g_of (p : nat) : act -> Prop :=
-  match p with 0 => g_wl | 1 => g_rl | _ => g_uc end.
-Lemma W_of : forall p, fair (g_of p) r.
-Proof. intros [|[|p]]; cbn; auto. Qed.
-
-(* -- (A) whoever won the CAS closes c.done -- *)
-Lemma cdone_step : forall p, p < 3 ->
-  (fun s => cpc p s = Some CDone) ~> (fun s => done s = true).
-Proof.
-  intros p Hp. apply (ensures (g_of p)); [apply W_of | | | ].
-  - destruct p as [|[|[|p]]]; try lia; cens1.
-  - destruct p as [|[|[|p]]]; try lia; cens2.
-  - intros s I H. exists (CCloseDone p). split.
-    + destruct p as [|[|[|p]]]; try lia; cbn; auto.
-    + cbn; auto.
-Qed.
-
-Lemma closed_to_done : (fun s => closed s = true) ~> (fun s => done s = true).
-Proof.
-  intros i H. destruct (done (st r i)) eqn:E; [exists i; auto|].
-  destruct (Inv_run i) as ((_ & I2 & _) & _). pose proof (i_cd _ I2) as Hc.
-  rewrite H, E in Hc. cbn [andb negb] in Hc. symmetry in Hc.
-  apply orb_true_iff in Hc. destruct Hc as [Hc|Hc]; [apply orb_true_iff in Hc; destruct Hc as [Hc|Hc]|].
-  - apply (cdone_step 0); [lia|]. destruct (cpc 0 (st r i)) as [[]|]; cbn in Hc; try discriminate Hc; auto.
-  - apply (cdone_step 1); [lia|]. destruct (cpc 1 (st r i)) as [[]|]; cbn in Hc; try discriminate Hc; auto.
-  - apply (cdone_step 2); [lia|]. destruct (cpc 2 (st r i)) as [[]|]; cbn in Hc; try discriminate Hc; auto.
-Qed.
-
-Ltac stab := let s := fresh "s" in let a := fresh "a" in let I := fresh "I" in
-  let H := fresh "H" in let G := fresh "G" in
-  intros s a I H G; clear I; act_cases a; cbn in G; break; try lia; params; unf; rwk; cbn in *;
-  try congruence; try solve [solve_side].
-
-Lemma done_stable : stable guard eff (Inv cap) (fun s => done s = true).
-Proof. stab. Qed.
-Lemma closed_stable : stable guard eff (Inv cap) (fun s => closed s = true).
-Proof. stab. Qed.
-Lemma sclosed_stable : stable guard eff (Inv cap) (fun s => sclosed s = true).
-Proof. stab. Qed.
-
-(* -- the read loop lets go of X's Ctx.lck once c.done is closed -- *)
-Definition rk (s : state) : nat :=
-  match rl s with RHold _ k => 2 * k | ROutL _ k => 2 * k + 1 | _ => 0 end.
-Lemma rl_release_step : forall n,
-  (fun s => (done s = true /\ rl_hold s = HX) /\ rk s = n) ~>
-  (fun s => rl_hold s <> HX \/ ((done s = true /\ rl_hold s = HX) /\ rk s < n)).
-Proof.
-  intros n. apply (ensures g_rl); auto.
-  - unfold rk; cens1.
-  - unfold rk; cens2.
-  - intros s I ((Hd & Hh) & Hn). unfold rl_hold in Hh.
-    destruct (rl s) eqn:E; try discriminate; subst.
-    + exists (RHoldFinish false false); cbn; eauto.
-    + exists ROutLDone; cbn; eauto.
-Qed.
-Lemma rl_release : (fun s => done s = true /\ rl_hold s = HX) ~> (fun s => rl_hold s <> HX).
-Proof.
-  apply (lt_variant guard eff r _ _ rk). intros n i H.
-  destruct (rl_release_step n i H) as (j & Hj & Hq). exists j; auto.
-Qed.
-
-(* -- bwLck comes back -- *)
-Lemma cwrite_release : forall p, p < 3 ->
-  (fun s => cpc p s = Some CWrite) ~> (fun s => bw s = BwNone).
-Proof.
-  intros p Hp. apply (ensures (g_of p)); [apply W_of | | | ].
-  - destruct p as [|[|[|p]]]; try lia; cens1.
-  - destruct p as [|[|[|p]]]; try lia; cens2.
-  - intros s (_ & _ & Hs) H. exists (CWriteRet p). split.
-    + destruct p as [|[|[|p]]]; try lia; cbn; auto.
-    + cbn; repeat split; auto; tauto.
-Qed.
-
-(* -- one iteration of the write loop ends -- *)
-Definition pcw (p : wl_pc) : nat :=
-  match p with LAcq => 4 | LLockB _ => 3 | LWrite _ => 2 | LRefill | LSelfOut => 1 | _ => 0 end.
-Definition wm (s : state) : nat :=
-  6 * bud s + pcw (wl s) + match xloc s with XWl => 1 | _ => 0 end.
-Definition wl_iter (s : state) : Prop :=
-  match wl s with LIter | LAcq | LLockB _ | LWrite _ | LRefill | LSelfOut => True | _ => False end.
-Definition wl_t (s : state) : Prop :=
-  match wl s with LT0 | LClose _ | LT2 | LT3 | LDone => True | _ => False end.
-Definition iterQ (n : nat) (s : state) : Prop :=
-  wl s = LSel \/ wl_t s \/ ((done s = true /\ wl_iter s) /\ wm s < n).
-
-Ltac wunf := unfold iterQ, wl_t, wl_iter, wm, pcw in *.
-
-Lemma it_LIter : forall n,
-  (fun s => (done s = true /\ wl s = LIter) /\ wm s = n) ~> iterQ n.
-Proof.
-  intros n. apply (ensures g_wl); auto.
-  - wunf; cens1_w1.
-  - wunf; cens2.
-  - intros s I ((Hd & Hw) & Hn).
-    destruct (xloc s) eqn:E;
-      try (exists LIterEnd; cbn; repeat split; auto; congruence).
-    exists LRejectX; cbn; auto.
-Qed.
-
-End P.
-End CliL2.
-
-Module CliL3.
-Import Cli CliP CliP2 CliL CliL2.
-
-Ltac easy_fin ::= solve [auto | congruence | lia | tauto | (intuition congruence)
-                         | (intuition (try congruence; try lia))
-                         | (repeat split; eauto; try congruence; try lia)
-                         | (left; repeat split; eauto; try congruence; try lia)
-                         | (right; right; right; repeat split; eauto; try congruence; try lia) ].
-Ltac solve_side ::= cbn; unf; rwk; rwx; cbn;
-  first [ solve [repeat split; eauto; try congruence; try lia]
-        | match goal with |- _ \/ _ => first [ solve [left; solve_side] | solve [right; solve_side] ] end
-        | solve [timeout 10 fin] ].
-Ltac wunf := unfold iterQ, wl_t, wl_iter, wm, pcw in *.
-
-Section P.
-Variable cap : nat.
-Hypothesis cap_pos : 1 <= cap.
-Notation guard := (Cli.guard cap).
-Notation reachable := (Cli.reachable cap).
-Notation inv := (CliP.inv cap).
-Variable r : run guard eff.
-Hypothesis F : fair_run cap r.
-Hypothesis R0 : reachable (st r 0).
-Hypothesis NS : forall i, stalled (st r i) = false \/ dead (st r i) = true.
-
-Notation Inv_run := (CliL2.Inv_run cap cap_pos r R0 NS).
-Notation "P ~> Q" := (leadsto r P Q) (at level 70).
-Notation ensures := (lt_ensures guard eff r (Inv cap) Inv_run).
-Notation ensures_s := (lt_ensures_s guard eff r (Inv cap) Inv_run).
-Let Fwl : sfair g_wl r := proj1 (proj2 (proj2 (proj2 F))).
-Let Fbody : sfair g_body r := proj2 (proj2 (proj2 (proj2 (proj2 (proj2 (proj2 F)))))).
-Let Wwl := sfair_fair guard eff r g_wl Fwl.
-Let Wbody := sfair_fair guard eff r g_body Fbody.
-Notation rl_release := (CliL2.rl_release cap cap_pos r F R0 NS).
-
-Lemma it_LWrite : forall n,
-  (fun s => (done s = true /\ exists h, wl s = LWrite h) /\ wm s = n) ~> iterQ n.
-Proof.
-  intros n. apply (ensures g_wl); auto.
-  - wunf; cens1_w1.
-  - wunf; cens2.
-  - intros s (_ & _ & Hs) ((Hd & h & Hw) & Hn).
-    destruct (dead s) eqn:E.
-    + exists (LWriteFail false); cbn; eauto.
-    + destruct Hs as [Hs|Hs]; [|congruence]. exists LWriteOk; cbn; eauto.
-Qed.
-
-Lemma it_LRefill : forall n,
-  (fun s => (done s = true /\ wl s = LRefill) /\ wm s = n) ~> iterQ n.
-Proof.
-  intros n. apply (ensures g_body); auto.
-  - wunf; cens1_w1.
-  - wunf; cens2.
-  - intros s I ((Hd & Hw) & Hn). exists (EBodyRead false); cbn; auto.
-Qed.
-
-Lemma it_LSelfOut : forall n,
-  (fun s => (done s = true /\ wl s = LSelfOut) /\ wm s = n) ~> iterQ n.
-Proof.
-  intros n. apply (ensures g_wl); auto.
-  - wunf; cens1_w1.
-  - wunf; cens2.
-  - intros s I ((Hd & Hw) & Hn). exists LSelfOutDone; cbn; auto.
-Qed.
-
-Lemma lacq_unless : forall n s a, Inv cap s ->
-  (done s = true /\ wl s = LAcq) /\ wm s = n -> guard a s ->
-  ((done (eff a s) = true /\ wl (eff a s) = LAcq) /\ wm (eff a s) = n) \/ iterQ n (eff a s).
-Proof. intros n; wunf; cens1_w1. Qed.
-
-Lemma it_LAcq : forall n,
-  (fun s => (done s = true /\ wl s = LAcq) /\ wm s = n) ~> iterQ n.
-Proof.
-  intros n. apply (ensures_s g_wl); auto.
-  - apply lacq_unless.
-  - wunf; cens2.
-  - intros i HP.
-    assert (forall s, Inv cap s -> ((done s = true /\ wl s = LAcq) /\ wm s = n) -> rl_hold s <> HX ->
-              exists a, g_wl a /\ guard a s) as En.
-    { intros s ((I1 & _ & _ & _) & _ & _) ((Hd & Hw) & Hn) Hr. pose proof (i_lx _ I1) as Hl.
-      unfold wl_hold in Hl. rewrite Hw in Hl.
-      assert (lx s = LxNone) by (destruct (rl_hold s); cbn in Hl; congruence).
-      destruct (xdone s) eqn:E; [exists LAcqXFail | exists LAcqX]; cbn; auto. }
-    destruct (rl_hold (st r i)) eqn:E.
-    1,3: exists i; split; auto; right; apply En; auto using Inv_run; congruence.
-    destruct (lt_unless guard eff r (Inv cap) Inv_run _ _ _ _ (lacq_unless n) rl_release i)
-      as (j & Hj & [Hq|(HP' & Hr)]).
-    + split; auto. split; auto. apply HP.
-    + exists j; auto.
-    + exists j; split; auto. right. apply En; auto using Inv_run.
-Qed.
-
-Lemma llock_unless : forall n s a, Inv cap s ->
-  (done s = true /\ exists h, wl s = LLockB h) /\ wm s = n -> guard a s ->
-  ((done (eff a s) = true /\ exists h, wl (eff a s) = LLockB h) /\ wm (eff a s) = n) \/ iterQ n (eff a s).
-Proof. intros n; wunf; cens1_w1. Qed.
-End P.
-End CliL3.
-
-Module CliL4.
-Import Cli CliP CliP2 CliL CliL2 CliL3.
-
-Ltac easy_fin ::= solve [auto | congruence | lia | tauto | (intuition congruence)
-                         | (intuition (try congruence; try lia))
-                         | (repeat split; eauto; try congruence; try lia)
-                         | (left; repeat split; eauto; try congruence; try lia)
-                         | (right; right; right; repeat split; eauto; try congruence; try lia) ].
-Ltac solve_side ::= cbn; unf; rwk; rwx; cbn;
-  first [ solve [repeat split; eauto; try congruence; try lia]
-        | match goal with |- _ \/ _ => first [ solve [left; solve_side] | solve [right; solve_side] ] end
-        | solve [timeout 10 fin] ].
-Ltac wunf := unfold iterQ, wl_t, wl_iter, wm, pcw in *.
-
-Section P.
-Variable cap : nat.
-Hypothesis cap_pos : 1 <= cap.
-Notation guard := (Cli.guard cap).
-Notation reachable := (Cli.reachable cap).
-Notation inv := (CliP.inv cap).
-Variable r : run guard eff.
-Hypothesis F : fair_run cap r.
-Hypothesis R0 : reachable (st r 0).
-Hypothesis NS : forall i, stalled (st r i) = false \/ dead (st r i) = true.
-
-Notation Inv_run := (CliL2.Inv_run cap cap_pos r R0 NS).
-Notation "P ~> Q" := (leadsto r P Q) (at level 70).
-Notation ensures := (lt_ensures guard eff r (Inv cap) Inv_run).
-Notation ensures_s := (lt_ensures_s guard eff r (Inv cap) Inv_run).
-Let Fwl : sfair g_wl r := proj1 (proj2 (proj2 (proj2 F))).
-Let Fbody : sfair g_body r := proj2 (proj2 (proj2 (proj2 (proj2 (proj2 (proj2 F)))))).
-Let Wwl := sfair_fair guard eff r g_wl Fwl.
-Let Wbody := sfair_fair guard eff r g_body Fbody.
-Notation rl_release := (CliL2.rl_release cap cap_pos r F R0 NS).
-
-Notation cwrite_release := (CliL2.cwrite_release cap cap_pos r F R0 NS).
-Notation done_stable := (CliL2.done_stable cap cap_pos r NS).
-Let Fsd : sfair g_seldone r := proj1 (proj2 (proj2 (proj2 (proj2 (proj2 (proj2 F)))))).
-
-Lemma bw_holder : forall s, inv1 s ->
-  (bw s = BwRl -> cpc 1 s = Some CWrite) /\ (bw s = BwUc -> cpc 2 s = Some CWrite) /\
-  ((exists h, wl s = LLockB h) -> bw s <> BwWl).
-Proof.
-  intros s I. pose proof (i_bw _ I) as H. unfold bw_of_state, cpc in *.
-  repeat split.
-  - intros E; rewrite E in H. destruct (wl s) as [| | |?|?| | | |[]| | |]; try discriminate;
-      destruct (rl s) as [|?| |? ?|? ?| | |[]|]; try discriminate; auto;
-      destruct (uc s) as [|[]|]; discriminate.
-  - intros E; rewrite E in H. destruct (wl s) as [| | |?|?| | | |[]| | |]; try discriminate;
-      destruct (rl s) as [|?| |? ?|? ?| | |[]|]; try discriminate;
-      destruct (uc s) as [|[]|]; try discriminate; auto.
-  - intros (h & E) Hb. rewrite E, Hb in H.
-    destruct (rl s) as [|?| |? ?|? ?| | |[]|]; try discriminate;
-      destruct (uc s) as [|[]|]; discriminate.
-Qed.
-
-Lemma it_LLockB : forall n,
-  (fun s => (done s = true /\ exists h, wl s = LLockB h) /\ wm s = n) ~> iterQ n.
-Proof.
-  intros n. apply (ensures_s g_wl); auto.
-  - apply (CliL3.llock_unless cap cap_pos r NS).
-  - wunf; cens2.
-  - intros i HP.
-    assert (forall s, ((done s = true /\ exists h, wl s = LLockB h) /\ wm s = n) -> bw s = BwNone ->
-              exists a, g_wl a /\ guard a s) as En.
-    { intros s ((Hd & h & Hw) & Hn) Hb. exists LLock; cbn; eauto. }
-    destruct (Inv_run i) as ((I1 & _) & _). destruct (bw_holder _ I1) as (B1 & B2 & B3).
-    destruct (bw (st r i)) eqn:Eb.
-    + exists i; split; auto.
-    + exfalso. apply B3; auto. apply HP.
-    + destruct (lt_unless guard eff r (Inv cap) Inv_run _ _ _ _
-                  (CliL3.llock_unless cap cap_pos r NS n) (cwrite_release 1 ltac:(lia)) i)
-        as (j & Hj & [Hq|(HP' & Hr)]); [split; auto | exists j; auto | exists j; split; auto].
-    + destruct (lt_unless guard eff r (Inv cap) Inv_run _ _ _ _
-                  (CliL3.llock_unless cap cap_pos r NS n) (cwrite_release 2 ltac:(lia)) i)
-        as (j & Hj & [Hq|(HP' & Hr)]); [split; auto | exists j; auto | exists j; split; auto].
-Qed.
-
-Lemma wl_iter_step : forall n,
-  (fun s => (done s = true /\ wl_iter s) /\ wm s = n) ~> iterQ n.
-Proof.
-  intros n i ((Hd & Hi) & Hn). unfold wl_iter in Hi.
-  destruct (wl (st r i)) eqn:E; try contradiction.
-  - apply (CliL2.it_LIter cap cap_pos r F R0 NS n); auto.
-  - apply (CliL3.it_LAcq cap cap_pos r F R0 NS n); auto.
-  - apply (it_LLockB n); eauto.
-  - apply (CliL3.it_LWrite cap cap_pos r F R0 NS n); eauto.
-  - apply (CliL3.it_LRefill cap cap_pos r F R0 NS n); auto.
-  - apply (CliL3.it_LSelfOut cap cap_pos r F R0 NS n); auto.
-Qed.
-
-Lemma wl_iter_end : (fun s => done s = true /\ wl_iter s) ~> (fun s => wl s = LSel \/ wl_t s).
-Proof.
-  apply (lt_variant guard eff r _ _ wm). intros n i H.
-  destruct (wl_iter_step n i H) as (j & Hj & Hq). exists j; split; auto.
-  unfold iterQ in Hq. tauto.
-Qed.
-
-Definition wl_loop (s : state) : Prop := done s = true /\ (wl s = LSel \/ wl_iter s).
-
-Lemma wl_loop_unless : forall s a, Inv cap s -> wl_loop s -> guard a s ->
-  wl_loop (eff a s) \/ wl_t (eff a s).
-Proof. unfold wl_loop; wunf; cens1. Qed.
-
-Lemma wl_to_t : (fun s => done s = true) ~> wl_t.
-Proof.
-  assert (wl_loop ~> wl_t) as K.
-  { apply (ensures_s g_seldone); auto.
-    - apply wl_loop_unless.
-    - unfold wl_loop; wunf; cens2.
-    - intros i (Hd & [Hs|Hi]).
-      + exists i; split; auto. right. exists LSelDone; cbn; auto.
-      + destruct (lt_stable guard eff r (Inv cap) Inv_run _ _ _ wl_iter_end done_stable i)
-          as (j & Hj & [Hs|Ht] & Hd'); [tauto| |].
-        * exists j; split; auto. right. exists LSelDone; cbn; auto.
-        * exists j; auto. }
-  intros i Hd. destruct (wl (st r i)) eqn:E.
-  1-7: apply K; split; auto; unfold wl_iter; rewrite E; auto.
-  all: exists i; split; auto; unfold wl_t; rewrite E; auto.
-Qed.
-End P.
-End CliL4.
-
-Module CliL5.
-Import Cli CliP CliP2 CliL CliL2 CliL3 CliL4.
-
-Ltac easy_fin ::= solve [auto | congruence | lia | tauto | (intuition congruence)
-                         | (intuition (try congruence; try lia))
-                         | (repeat split; eauto; try congruence; try lia)
-                         | (left; repeat split; eauto; try congruence; try lia)
-                         | (right; right; right; repeat split; eauto; try congruence; try lia) ].
-Ltac solve_side ::= cbn; unf; rwk; rwx; cbn;
-  first [ solve [repeat split; eauto; try congruence; try lia]
-        | match goal with |- _ \/ _ => first [ solve [left; solve_side] | solve [right; solve_side] ] end
-        | solve [timeout 10 fin] ].
-Ltac wunf := unfold iterQ, wl_t, wl_iter, wm, pcw in *.
-
-Section P.
-Variable cap : nat.
-Hypothesis cap_pos : 1 <= cap.
-Notation guard := (Cli.guard cap).
-Notation reachable := (Cli.reachable cap).
-Notation inv := (CliP.inv cap).
-Variable r : run guard eff.
-Hypothesis F : fair_run cap r.
-Hypothesis R0 : reachable (st r 0).
-Hypothesis NS : forall i, stalled (st r i) = false \/ dead (st r i) = true.
-
-Notation Inv_run := (CliL2.Inv_run cap cap_pos r R0 NS).
-Notation "P ~> Q" := (leadsto r P Q) (at level 70).
-Notation ensures := (lt_ensures guard eff r (Inv cap) Inv_run).
-Notation ensures_s := (lt_ensures_s guard eff r (Inv cap) Inv_run).
-Let Fwl : sfair g_wl r := proj1 (proj2 (proj2 (proj2 F))).
-Let Fbody : sfair g_body r := proj2 (proj2 (proj2 (proj2 (proj2 (proj2 (proj2 F)))))).
-Let Wwl := sfair_fair guard eff r g_wl Fwl.
-Let Wbody := sfair_fair guard eff r g_body Fbody.
-Notation rl_release := (CliL2.rl_release cap cap_pos r F R0 NS).
-
-Notation done_stable := (CliL2.done_stable cap cap_pos r NS).
-Let Frl : sfair g_rl r := proj1 (proj2 (proj2 (proj2 (proj2 F)))).
-Let Fuc : sfair g_uc r := proj1 (proj2 (proj2 (proj2 (proj2 (proj2 F))))).
-Let Wrl := sfair_fair guard eff r g_rl Frl.
-Let Wuc := sfair_fair guard eff r g_uc Fuc.
-Lemma W_of : forall p, fair (g_of p) r.
-Proof. intros [|[|p]]; cbn; auto. Qed.
-Lemma S_of : forall p, sfair (g_of p) r.
-Proof. intros [|[|p]]; cbn; auto. Qed.
-
-(* -- (C) whoever won the CAS gets through Close: the socket is closed -- *)
-Lemma lwrite_release : (fun s => exists h, wl s = LWrite h) ~> (fun s => bw s = BwNone).
-Proof.
-  apply (ensures g_wl); auto.
-  - cens1.
-  - cens2.
-  - intros s (_ & _ & Hs) (h & Hw). destruct (dead s) eqn:E.
-    + exists (LWriteFail false); cbn; eauto.
-    + destruct Hs as [Hs|Hs]; [|congruence]. exists LWriteOk; cbn; eauto.
-Qed.
-
-Lemma clock_holder : forall s p, p < 3 -> CliP.inv cap s -> cpc p s = Some CLock ->
-  bw s = BwNone \/ exists h, wl s = LWrite h.
-Proof.
-  intros s p Hp (I1 & I2 & _) Hc. pose proof (i_bw _ I1) as Hb. pose proof (i_mid1 _ I2) as Hm.
-  unfold bw_of_state, midn, cpc in *.
-  destruct p as [|[|[|p]]]; try lia.
-  - destruct (wl s) as [| | |?|?| | | |[]| | |]; try discriminate.
-    destruct (rl s) as [|?| |? ?|? ?| | |[]|]; cbn in *; try lia; auto;
-      destruct (uc s) as [|[]|]; cbn in *; try lia; auto.
-  - destruct (rl s) as [|?| |? ?|? ?| | |[]|]; try discriminate.
-    destruct (wl s) as [| | |?|?| | | |[]| | |]; cbn in *; try lia; eauto;
-      destruct (uc s) as [|[]|]; cbn in *; try lia; auto.
-  - destruct (uc s) as [|[]|]; try discriminate.
-    destruct (wl s) as [| | |?|?| | | |[]| | |]; cbn in *; try lia; eauto;
-      destruct (rl s) as [|?| |? ?|? ?| | |[]|]; cbn in *; try lia; auto.
-Qed.
-
-Lemma clock_unless : forall p, p < 3 -> forall s a, Inv cap s ->
-  cpc p s = Some CLock -> guard a s ->
-  cpc p (eff a s) = Some CLock \/ cpc p (eff a s) = Some CWrite.
-Proof. intros p Hp. destruct p as [|[|[|p]]]; try lia; cens1. Qed.
-
-Lemma clock_step : forall p, p < 3 ->
-  (fun s => cpc p s = Some CLock) ~> (fun s => cpc p s = Some CWrite).
-Proof.
-  intros p Hp. apply (ensures_s (g_of p)); [apply S_of | apply clock_unless; auto | | ].
-  - destruct p as [|[|[|p]]]; try lia; cens2.
-  - intros i HP.
-    assert (forall s, cpc p s = Some CLock -> bw s = BwNone -> exists a, g_of p a /\ guard a s) as En.
-    { intros s Hc Hb. exists (CLockB p). split; [destruct p as [|[|[|p]]]; try lia; cbn; auto|].
-      cbn; auto. }
-    destruct (Inv_run i) as (I & _). destruct (clock_holder _ p Hp I HP) as [Hb|Hw].
-    + exists i; auto.
-    + destruct (lt_unless guard eff r (Inv cap) Inv_run (fun s => cpc p s = Some CLock)
-                  (fun s => cpc p s = Some CWrite) _ _ (clock_unless p Hp) lwrite_release i)
-        as (j & Hj & [Hq|(HP' & Hr)]); [split; auto | exists j; auto | exists j; split; auto].
-Qed.
-
-Lemma cwrite_step : forall p, p < 3 ->
-  (fun s => cpc p s = Some CWrite) ~> (fun s => sclosed s = true).
-Proof.
-  intros p Hp. apply (ensures (g_of p)); [apply W_of | | | ].
-  - destruct p as [|[|[|p]]]; try lia; cens1.
-  - destruct p as [|[|[|p]]]; try lia; cens2.
-  - intros s (_ & _ & Hs) H. exists (CWriteRet p). split.
-    + destruct p as [|[|[|p]]]; try lia; cbn; auto.
-    + cbn; repeat split; auto; tauto.
-Qed.
-
-Lemma done_to_sclosed : (fun s => done s = true) ~> (fun s => sclosed s = true).
-Proof.
-  intros i Hd. destruct (Inv_run i) as (_ & I5 & _). destruct (i_fin _ I5 Hd) as [Hs|Hl].
-  { exists i; auto. }
-  assert (forall p, p < 3 -> is_late (cpc p (st r i)) = true ->
-            exists j, i <= j /\ sclosed (st r j) = true) as K.
-  { intros p Hp Hl'. destruct (cpc p (st r i)) as [[]|] eqn:E; try discriminate.
-    - eapply (lt_trans _ _ _ _ _ _ (clock_step p Hp) (cwrite_step p Hp)); eauto.
-    - eapply (cwrite_step p Hp); eauto. }
-  apply orb_true_iff in Hl. destruct Hl as [Hl|Hl]; [apply orb_true_iff in Hl; destruct Hl as [Hl|Hl]|].
-  - apply (K 0); auto.
-  - apply (K 1); auto.
-  - apply (K 2); auto.
-Qed.
-End P.
-End CliL5.
-
-Module CliL6.
-Import Cli CliP CliP2 CliL CliL2 CliL3 CliL4 CliL5.
-
-Ltac easy_fin ::= solve [auto | congruence | lia | tauto | (intuition congruence)
-                         | (intuition (try congruence; try lia))
-                         | (repeat split; eauto; try congruence; try lia)
-                         | (left; repeat split; eauto; try congruence; try lia)
-                         | (right; right; right; repeat split; eauto; try congruence; try lia) ].
-Ltac solve_side ::= cbn; unf; rwk; rwx; cbn;
-  first [ solve [repeat split; eauto; try congruence; try lia]
-        | match goal with |- _ \/ _ => first [ solve [left; solve_side] | solve [right; solve_side] ] end
-        | solve [timeout 10 fin] ].
-Ltac stab := let s := fresh "s" in let a := fresh "a" in let I := fresh "I" in
-  let H := fresh "H" in let G := fresh "G" in
-  intros s a I H G; clear I; act_cases a; cbn in G; break; try lia; params; unf; rwk; cbn in *;
-  try congruence; try solve [solve_side].
-Ltac wunf := unfold iterQ, wl_t, wl_iter, wm, pcw in *.
-
-Section P.
-Variable cap : nat.
-Hypothesis cap_pos : 1 <= cap.
-Notation guard := (Cli.guard cap).
-Notation reachable := (Cli.reachable cap).
-Notation inv := (CliP.inv cap).
-Variable r : run guard eff.
-Hypothesis F : fair_run cap r.
-Hypothesis R0 : reachable (st r 0).
-Hypothesis NS : forall i, stalled (st r i) = false \/ dead (st r i) = true.
-
-Notation Inv_run := (CliL2.Inv_run cap cap_pos r R0 NS).
-Notation "P ~> Q" := (leadsto r P Q) (at level 70).
-Notation ensures := (lt_ensures guard eff r (Inv cap) Inv_run).
-Notation ensures_s := (lt_ensures_s guard eff r (Inv cap) Inv_run).
-Let Fwl : sfair g_wl r := proj1 (proj2 (proj2 (proj2 F))).
-Let Fbody : sfair g_body r := proj2 (proj2 (proj2 (proj2 (proj2 (proj2 (proj2 F)))))).
-Let Wwl := sfair_fair guard eff r g_wl Fwl.
-Let Wbody := sfair_fair guard eff r g_body Fbody.
-Notation rl_release := (CliL2.rl_release cap cap_pos r F R0 NS).
-
-Notation done_stable := (CliL2.done_stable cap cap_pos r NS).
-Notation sclosed_stable := (CliL2.sclosed_stable cap cap_pos r NS).
-Let Frl : sfair g_rl r := proj1 (proj2 (proj2 (proj2 (proj2 F)))).
-Let Wrl := sfair_fair guard eff r g_rl Frl.
-
-Lemma wl_t_stable : stable guard eff (Inv cap) wl_t.
-Proof. wunf; stab. Qed.
-
-(* -- (D) with the socket closed and the write loop in its teardown, the read loop ends -- *)
-Definition rlr (p : rl_pc) : nat :=
-  match p with
-  | RDone => 0 | RClose CWrite => 1 | RClose CLock => 2 | RClose CDone => 3 | RClose CCas => 4
-  | RExit => 5 | RRead => 6 | RIter false => 7 | ROut => 8 | RHold _ k => 9 + 2 * k
-  | ROutL _ k => 10 + 2 * k | RAcq => 14 | RIter true => 15
-  end.
-Definition rm (s : state) : nat := (if rdy s then 20 else 0) + rlr (rl s).
-Definition PD (s : state) : Prop := sclosed s = true /\ done s = true /\ wl_t s.
-
-Lemma PD_stable : stable guard eff (Inv cap) PD.
-Proof.
-  intros s a I (H1 & H2 & H3) G. repeat split.
-  - eapply sclosed_stable; eauto.
-  - eapply done_stable; eauto.
-  - eapply wl_t_stable; eauto.
-Qed.
-
-Lemma rl_step : forall n,
-  (fun s => (PD s /\ rl s <> RDone) /\ rm s = n) ~> (fun s => PD s /\ rm s < n).
-Proof.
-  intros n. apply (ensures g_rl); auto.
-  - intros s a I ((HP & Hr) & Hn) G. pose proof (PD_stable s a I HP G) as HP'.
-    revert HP'. generalize (PD (eff a s)). intros PD' HP'. unfold PD, rm, rlr in *.
-    clear I; act_cases a; cbn in G; break; try lia; params; unf; rwk; cbn in *; unf; xr;
-      try congruence;
-      first [ left; solve [solve_side] | right; solve [solve_side] | idtac ].
-  - intros s a I ((HP & Hr) & Hn) Ga G. pose proof (PD_stable s a I HP G) as HP'.
-    revert HP'. generalize (PD (eff a s)). intros PD' HP'. unfold PD, rm, rlr in *.
-    clear I; act_cases a; cbn in Ga; try contradiction; try lia;
-      cbn in G; break; try lia; params; unf; rwk; cbn in *; unf; xr; try congruence;
-      try solve [solve_side].
-  - intros s I (((Hs & Hd & Ht) & Hr) & Hn).
-    destruct I as (I & _ & Hst). pose proof I as (I1 & I2 & _).
-    assert (dead s = true) as Dd by (unfold dead; rewrite Hs; apply orb_true_r).
-    destruct (rl s) eqn:E; try congruence.
-    + exists RReadFail; cbn; auto.
-    + exists (RIterEnd false); cbn; eauto.
-    + assert (lx s = LxNone) as Hl.
-      { pose proof (i_lx _ I1) as Hl. unfold rl_hold, wl_hold, wl_t in *. rewrite E in Hl.
-        destruct (wl s); try contradiction; cbn in Hl; auto. }
-      destruct (xdone s) eqn:Ex; [exists RAcqXFail | exists RAcqX]; cbn; auto.
-    + exists (RHoldFinish false false); cbn; eauto.
-    + exists ROutLDone; cbn; eauto.
-    + exists ROutDone; cbn; eauto.
-    + exists RDeferClose; cbn; auto.
-    + destruct c.
-      * exists (CCasLose 1); cbn; rewrite E; repeat split; auto. apply (i_done _ I2); auto.
-      * exists (CCloseDone 1); cbn; rewrite E; auto.
-      * exists (CLockB 1); cbn; rewrite E; repeat split; auto.
-        destruct (clock_holder cap cap_pos s 1 ltac:(lia) I) as [Hb|(h & Hw)]; auto.
-        { unfold cpc; rewrite E; auto. }
-        unfold wl_t in Ht; rewrite Hw in Ht; contradiction.
-      * exists (CWriteRet 1); cbn; rewrite E; repeat split; auto; try lia; tauto.
-Qed.
-
-Lemma rl_finishes : PD ~> (fun s => rl s = RDone).
-Proof.
-  apply (lt_variant guard eff r PD (fun s => rl s = RDone) rm). intros n i (HP & Hn).
-  assert (rl (st r i) = RDone \/ rl (st r i) <> RDone) as [E|E]
-    by (destruct (rl (st r i)); auto; right; congruence).
-  - exists i; auto.
-  - destruct (rl_step n i) as (j & Hj & HP' & Hlt); [|exists j; split; auto].
-    repeat split; auto; apply HP.
-Qed.
-End P.
-End CliL6.
-
-Module CliL7.
-Import Cli CliP CliP2 CliL CliL2 CliL3 CliL4 CliL5 CliL6.
-
-Ltac easy_fin ::= solve [auto | congruence | lia | tauto | (intuition congruence)
-                         | (intuition (try congruence; try lia))
-                         | (repeat split; eauto; try congruence; try lia)
-                         | (left; repeat split; eauto; try congruence; try lia)
-                         | (right; right; right; repeat split; eauto; try congruence; try lia) ].
-Ltac solve_side ::= cbn; unf; rwk; rwx; cbn;
-  first [ solve [repeat split; eauto; try congruence; try lia]
-        | match goal with |- _ \/ _ => first [ solve [left; solve_side] | solve [right; solve_side] ] end
-        | solve [timeout 10 fin] ].
-Ltac stab := let s := fresh "s" in let a := fresh "a" in let I := fresh "I" in
-  let H := fresh "H" in let G := fresh "G" in
-  intros s a I H G; clear I; act_cases a; cbn in G; break; try lia; params; unf; rwk; cbn in *;
-  try congruence; try solve [solve_side].
-Ltac wunf := unfold iterQ, wl_t, wl_iter, wm, pcw in *.
-
-Section P.
-Variable cap : nat.
-Hypothesis cap_pos : 1 <= cap.
-Notation guard := (Cli.guard cap).
-Notation reachable := (Cli.reachable cap).
-Notation inv := (CliP.inv cap).
-Variable r : run guard eff.
-Hypothesis F : fair_run cap r.
-Hypothesis R0 : reachable (st r 0).
-Hypothesis NS : forall i, stalled (st r i) = false \/ dead (st r i) = true.
-
-Notation Inv_run := (CliL2.Inv_run cap cap_pos r R0 NS).
-Notation "P ~> Q" := (leadsto r P Q) (at level 70).
-Notation ensures := (lt_ensures guard eff r (Inv cap) Inv_run).
-Notation ensures_s := (lt_ensures_s guard eff r (Inv cap) Inv_run).
-Let Fwl : sfair g_wl r := proj1 (proj2 (proj2 (proj2 F))).
-Let Fbody : sfair g_body r := proj2 (proj2 (proj2 (proj2 (proj2 (proj2 (proj2 F)))))).
-Let Wwl := sfair_fair guard eff r g_wl Fwl.
-Let Wbody := sfair_fair guard eff r g_body Fbody.
-Notation rl_release := (CliL2.rl_release cap cap_pos r F R0 NS).
-
-Notation done_stable := (CliL2.done_stable cap cap_pos r NS).
-Notation closed_stable := (CliL2.closed_stable cap cap_pos r NS).
-Notation wl_t_stable := (CliL6.wl_t_stable cap cap_pos r NS).
-
-Lemma rl_done_stable : stable guard eff (Inv cap) (fun s => rl s = RDone).
-Proof. stab. Qed.
-
-(* -- (E) the write loop gets through its teardown and out of the drain loop -- *)
-Definition PE (s : state) : Prop := closed s = true /\ done s = true /\ rl s = RDone /\ wl_t s.
-Lemma PE_stable : stable guard eff (Inv cap) PE.
-Proof.
-  intros s a I (H1 & H2 & H3 & H4) G. repeat split.
-  - eapply closed_stable; eauto.
-  - eapply done_stable; eauto.
-  - eapply rl_done_stable; eauto.
-  - eapply wl_t_stable; eauto.
-Qed.
-
-Definition ws (p : wl_pc) : nat :=
-  match p with
-  | LT0 => 7 | LClose CCas => 6 | LClose CDone => 5 | LClose CLock => 4 | LClose CWrite => 3
-  | LT2 => 2 | LT3 => 1 | _ => 0
-  end.
-
-Lemma wt_step : forall n,
-  (fun s => (PE s /\ 2 <= ws (wl s)) /\ ws (wl s) = n) ~> (fun s => PE s /\ ws (wl s) < n).
-Proof.
-  intros n. apply (ensures g_wl); auto.
-  - intros s a I ((HP & Hr) & Hn) G. pose proof (PE_stable s a I HP G) as HP'.
-    revert HP'. generalize (PE (eff a s)). intros PE' HP'. unfold PE, ws in *.
-    clear I; act_cases a; cbn in G; break; try lia; params; unf; rwk; cbn in *; unf; xr;
-      try congruence; try lia;
-      first [ left; solve [solve_side] | right; solve [solve_side] | idtac ].
-  - intros s a I ((HP & Hr) & Hn) Ga G. pose proof (PE_stable s a I HP G) as HP'.
-    revert HP'. generalize (PE (eff a s)). intros PE' HP'. unfold PE, ws in *.
-    clear I; act_cases a; cbn in Ga; try contradiction; try lia;
-      cbn in G; break; try lia; params; unf; rwk; cbn in *; unf; xr; try congruence; try lia;
-      try solve [solve_side].
-  - intros s I (((Hc & Hd & Hrl & Ht) & Hr) & Hn).
-    destruct I as (I & _ & Hst). pose proof I as (I1 & I2 & _).
-    destruct (wl s) eqn:E; cbn in Hr; try lia.
-    + exists LSetErr; cbn; auto.
-    + destruct c.
-      * exists (CCasLose 0); cbn; rewrite E; repeat split; auto; lia.
-      * exists (CCloseDone 0); cbn; rewrite E; repeat split; auto; lia.
-      * exists (CLockB 0); cbn; rewrite E; repeat split; auto; try lia.
-        destruct (clock_holder cap cap_pos s 0 ltac:(lia) I) as [Hb|(h & Hw)]; auto.
-        { unfold cpc; rewrite E; auto. }
-        congruence.
-      * exists (CWriteRet 0); cbn; rewrite E; repeat split; auto; try lia; tauto.
-    + exists LT2Take; cbn; auto.
-Qed.
-
-Lemma wt_to_drain : PE ~> (fun s => PE s /\ ws (wl s) <= 1).
-Proof.
-  apply (lt_variant guard eff r PE _ (fun s => ws (wl s))). intros n i (HP & Hn).
-  destruct (le_lt_dec 2 (ws (wl (st r i)))) as [Hge|Hlt].
-  - destruct (wt_step n i) as (j & Hj & HP' & Hl); [repeat split; auto; apply HP|].
-    exists j; split; auto.
-  - exists i; split; auto. left; split; auto; lia.
-Qed.
-
-Definition tx_active (p : tx_pc) : nat :=
-  match p with TArmed | TRes | TDel | TTake | TOut => 2 | _ => 0 end.
-Definition V (s : state) : nat :=
-  inq s + outq s + xin s + 2 * ow s + (match xc s with KW1 => 2 | _ => 0 end) + tx_active (tx s).
-Definition PE3 (s : state) : Prop := PE s /\ wl s = LT3.
-
-Lemma drain_step : forall n,
-  (fun s => PE3 s /\ V s = n) ~> (fun s => wl s = LDone \/ (PE3 s /\ V s < n)).
-Proof.
-  intros n. apply (ensures g_wl); auto.
-  - intros s a I ((HP & Hw) & Hn) G. pose proof (PE_stable s a I HP G) as HP'.
-    revert HP'. unfold PE3. generalize (PE (eff a s)). intros PE' HP'.
-    destruct HP as (Hc & Hd & Hrl & _). unfold V, tx_active in *.
-    assert (xc s = KW1 -> xloc s = XOut) by (destruct I as ((_ & _ & _ & I4) & _); apply I4).
-    clear I; act_cases a; cbn in G; break; try lia; params; unf; rwk; fwd; rwx; cbn -[Nat.mul] in *;
-      unf; xr; try congruence; try lia;
-      first [ left; solve [solve_side] | right; solve [solve_side] | idtac ].
-    all: try (destruct (tx s) eqn:?; cbn in *; first [ left; solve [solve_side] | right; solve [solve_side] ]).
-    all: try (destruct (xloc s) eqn:?; cbn in *; first [ left; solve [solve_side] | right; solve [solve_side] ]).
-    all: try (destruct (xsid s) eqn:?; cbn in *; first [ left; solve [solve_side] | right; solve [solve_side] ]).
-  - intros s a I ((HP & Hw) & Hn) Ga G. pose proof (PE_stable s a I HP G) as HP'.
-    revert HP'. unfold PE3. generalize (PE (eff a s)). intros PE' HP'.
-    destruct HP as (Hc & Hd & Hrl & _). unfold V, tx_active in *.
-    clear I; act_cases a; cbn in Ga; try contradiction; try lia;
-      cbn in G; break; try lia; params; unf; rwk; rwx; cbn -[Nat.mul] in *; unf; xr;
-      try congruence; try lia;
-      first [ left; solve [solve_side] | right; solve [solve_side] | idtac ].
-  - intros s I (((Hc & Hd & Hrl & Ht) & Hw) & Hn).
-    destruct (Nat.eq_dec (inq s) 0) as [E1|E1]; [|exists LT3InO; cbn; repeat split; auto; lia].
-    destruct (Nat.eq_dec (outq s) 0) as [E2|E2]; [|exists LT3Out; cbn; repeat split; auto; lia].
-    destruct (xloc s) eqn:E3;
-      try (exists LT3End; cbn; repeat split; auto; congruence).
-    exists LT3InX; cbn; auto.
-Qed.
-
-Lemma drain_finishes : PE3 ~> (fun s => wl s = LDone).
-Proof.
-  apply (lt_variant guard eff r PE3 _ V). intros n i H.
-  destruct (drain_step n i H) as (j & Hj & Hq). exists j; auto.
-Qed.
-
-Theorem wl_finishes : PE ~> (fun s => wl s = LDone).
-Proof.
-  intros i HP. destruct (wt_to_drain i HP) as (j & Hj & HP' & Hw).
-  destruct (wl (st r j)) eqn:E; cbn in Hw; try lia;
-    try (destruct HP' as (_ & _ & _ & Ht); unfold wl_t in Ht; rewrite E in Ht; contradiction).
-  - destruct c; cbn in Hw; lia.
-  - destruct (drain_finishes j) as (k & Hk & Hq); [split; auto|]. exists k; split; auto; lia.
-  - exists j; auto.
-Qed.
-End P.
-End CliL7.
-
-Module CliL8.
-Import Cli CliP CliP2 CliL CliL2 CliL3 CliL4 CliL5 CliL6 CliL7.
-
-Ltac easy_fin ::= solve [auto | congruence | lia | tauto | (intuition congruence)
-                         | (intuition (try congruence; try lia))
-                         | (repeat split; eauto; try congruence; try lia)
-                         | (left; repeat split; eauto; try congruence; try lia)
-                         | (right; right; right; repeat split; eauto; try congruence; try lia) ].
-Ltac solve_side ::= cbn; unf; rwk; rwx; cbn;
-  first [ solve [repeat split; eauto; try congruence; try lia]
-        | match goal with |- _ \/ _ => first [ solve [left; solve_side] | solve [right; solve_side] ] end
-        | solve [timeout 10 fin] ].
-Ltac stab := let s := fresh "s" in let a := fresh "a" in let I := fresh "I" in
-  let H := fresh "H" in let G := fresh "G" in
-  intros s a I H G; clear I; act_cases a; cbn in G; break; try lia; params; unf; rwk; cbn in *;
-  try congruence; try solve [solve_side].
-Ltac wunf := unfold iterQ, wl_t, wl_iter, wm, pcw in *.
-
-Section P.
-Variable cap : nat.
-Hypothesis cap_pos : 1 <= cap.
-Notation guard := (Cli.guard cap).
-Notation reachable := (Cli.reachable cap).
-Notation inv := (CliP.inv cap).
-Variable r : run guard eff.
-Hypothesis F : fair_run cap r.
-Hypothesis R0 : reachable (st r 0).
-Hypothesis NS : forall i, stalled (st r i) = false \/ dead (st r i) = true.
-
-Notation Inv_run := (CliL2.Inv_run cap cap_pos r R0 NS).
-Notation "P ~> Q" := (leadsto r P Q) (at level 70).
-Notation ensures := (lt_ensures guard eff r (Inv cap) Inv_run).
-Notation ensures_s := (lt_ensures_s guard eff r (Inv cap) Inv_run).
-Let Fwl : sfair g_wl r := proj1 (proj2 (proj2 (proj2 F))).
-Let Fbody : sfair g_body r := proj2 (proj2 (proj2 (proj2 (proj2 (proj2 (proj2 F)))))).
-Let Wwl := sfair_fair guard eff r g_wl Fwl.
-Let Wbody := sfair_fair guard eff r g_body Fbody.
-Notation rl_release := (CliL2.rl_release cap cap_pos r F R0 NS).
-
-Notation done_stable := (CliL2.done_stable cap cap_pos r NS).
-Notation closed_stable := (CliL2.closed_stable cap cap_pos r NS).
-Notation sclosed_stable := (CliL2.sclosed_stable cap cap_pos r NS).
-Notation wl_t_stable := (CliL6.wl_t_stable cap cap_pos r NS).
-Notation rl_done_stable := (CliL7.rl_done_stable cap cap_pos r NS).
-Notation srun := (stable_run guard eff r (Inv cap) Inv_run).
-Let Fx : sfair g_x r := proj1 F.
-Let Wx := sfair_fair guard eff r g_x Fx.
-
-Lemma wl_done_stable : stable guard eff (Inv cap) (fun s => wl s = LDone).
-Proof. stab. Qed.
-
-(* -- after Close has been entered, by anyone, both loops exit -- *)
-Theorem both_loops_exit :
-  (fun s => closed s = true) ~> (fun s => loops_exited s /\ done s = true).
-Proof.
-  intros i Hc.
-  destruct (CliL2.closed_to_done cap cap_pos r F R0 NS i Hc) as (j1 & L1 & Hd).
-  destruct (CliL4.wl_to_t cap cap_pos r F R0 NS j1 Hd) as (j2 & L2 & Ht).
-  pose proof (srun _ done_stable j1 j2 L2 Hd) as Hd2.
-  destruct (CliL5.done_to_sclosed cap cap_pos r F R0 NS j2 Hd2) as (j3 & L3 & Hs).
-  pose proof (srun _ done_stable j2 j3 L3 Hd2) as Hd3.
-  pose proof (srun _ wl_t_stable j2 j3 L3 Ht) as Ht3.
-  destruct (CliL6.rl_finishes cap cap_pos r F R0 NS j3) as (j4 & L4 & Hr); [repeat split; auto|].
-  pose proof (srun _ done_stable j3 j4 L4 Hd3) as Hd4.
-  pose proof (srun _ wl_t_stable j3 j4 L4 Ht3) as Ht4.
-  assert (closed (st r j4) = true) as Hc4.
-  { apply (srun _ closed_stable i j4); auto; lia. }
-  destruct (CliL7.wl_finishes cap cap_pos r F R0 NS j4) as (j5 & L5 & Hw); [repeat split; auto|].
-  exists j5. split; [lia|]. repeat split; auto.
-  - apply (srun _ rl_done_stable j4 j5); auto.
-  - apply (srun _ done_stable j4 j5); auto.
-Qed.
-
-(* -- and X's caller gets its delivery, unless the write loop's own Close returned while c.done
-      was still open (finding F4) -- *)
-Definition LE (s : state) : Prop := wl s = LDone /\ rl s = RDone /\ done s = true.
-Lemma LE_stable : stable guard eff (Inv cap) LE.
-Proof.
-  intros s a I (H1 & H2 & H3) G; split; [eapply wl_done_stable | split; [eapply rl_done_stable | eapply done_stable]]; eauto.
-Qed.
-
-Lemma kerr_resolved : forall s, Inv cap s -> wl s = LDone -> xc s = KErr ->
-  raced s = true \/ xerr s = true.
-Proof.
-  intros s ((_ & _ & _ & I4) & _) Hw Hx. destruct I4.
-  destruct (xloc s) eqn:E.
-  - right; auto.
-  - auto.
-  - rewrite Hw in *; cbn in *. destruct i_drained0; auto; congruence.
-  - rewrite Hw in *; cbn in *. destruct i_drained0; auto; congruence.
-  - right. apply i_gone0; auto. rewrite Hx; auto.
-Qed.
-
-Lemma xW1 : (fun s => LE s /\ xc s = KW1) ~> (fun s => LE s /\ (xc s = KW2 \/ xc s = KSelf)).
-Proof.
-  apply (ensures g_x); auto.
-  - intros s a I (HP & Hx) G. pose proof (LE_stable s a I HP G) as HP'.
-    revert HP'. generalize (LE (eff a s)). intros LE' HP'. destruct HP as (Hw & Hrl & Hd).
-    clear I; act_cases a; cbn in G; break; try lia; params; unf; rwk; cbn in *; unf; xr;
-      try congruence; first [ left; solve [solve_side] | right; solve [solve_side] | idtac ].
-  - intros s a I (HP & Hx) Ga G. pose proof (LE_stable s a I HP G) as HP'.
-    revert HP'. generalize (LE (eff a s)). intros LE' HP'. destruct HP as (Hw & Hrl & Hd).
-    clear I; act_cases a; cbn in Ga; try contradiction; cbn in G; break; try lia; params; unf; rwk;
-      cbn in *; unf; xr; try congruence; try solve [solve_side].
-  - intros s I ((Hw & Hrl & Hd) & Hx). exists KSeeDone; cbn; auto.
-Qed.
-
-Ltac xob1 :=
-  let s := fresh "s" in let a := fresh "a" in let I := fresh "I" in let HP := fresh "HP" in
-  let Hx := fresh "Hx" in let G := fresh "G" in let HP' := fresh "HP'" in let LE' := fresh "LE'" in
-  intros s a I (HP & Hx) G; pose proof (LE_stable s a I HP G) as HP';
-  revert HP'; generalize (LE (eff a s)); intros LE' HP'; destruct HP as (? & ? & ?);
-  clear I; act_cases a; cbn in G; break; try lia; params; unf; rwk; cbn in *; unf; xr;
-  try congruence; first [ left; solve [solve_side] | right; solve [solve_side] | idtac ].
-Ltac xob2 :=
-  let s := fresh "s" in let a := fresh "a" in let I := fresh "I" in let HP := fresh "HP" in
-  let Hx := fresh "Hx" in let G := fresh "G" in let Ga := fresh "Ga" in
-  let HP' := fresh "HP'" in let LE' := fresh "LE'" in
-  intros s a I (HP & Hx) Ga G; pose proof (LE_stable s a I HP G) as HP';
-  revert HP'; generalize (LE (eff a s)); intros LE' HP'; destruct HP as (? & ? & ?);
-  clear I; act_cases a; cbn in Ga; try contradiction; cbn in G; break; try lia; params; unf; rwk;
-  cbn in *; unf; xr; try congruence; try solve [solve_side].
-
-Lemma xW2 : (fun s => LE s /\ xc s = KW2) ~> (fun s => LE s /\ xc s = KLck).
-Proof.
-  apply (ensures g_x); auto; [xob1 | xob2 | ].
-  intros s I ((Hw & Hrl & Hd) & Hx). exists KCheckDone; cbn; auto.
-Qed.
-Lemma xLck : (fun s => LE s /\ xc s = KLck) ~> (fun s => LE s /\ xc s = KErr).
-Proof.
-  apply (ensures g_x); auto; [xob1 | xob2 | ].
-  intros s ((I1 & _ & _ & _) & _ & _) ((Hw & Hrl & Hd) & Hx). exists KLockChk; cbn; repeat split; auto.
-  pose proof (i_lx _ I1) as Hl. unfold wl_hold, rl_hold in Hl. rewrite Hw, Hrl in Hl. auto.
-Qed.
-Lemma xSelf : (fun s => LE s /\ xc s = KSelf) ~> (fun s => LE s /\ xc s = KErr).
-Proof.
-  apply (ensures g_x); auto; [xob1 | xob2 | ].
-  intros s I ((Hw & Hrl & Hd) & Hx). exists KResolve; cbn; auto.
-Qed.
-Lemma xErr : (fun s => LE s /\ (xc s = KErr /\ xerr s = true)) ~> delivered.
-Proof.
-  unfold delivered. apply (ensures g_x); auto; [xob1 | xob2 | ].
-  intros s I ((Hw & Hrl & Hd) & Hx & He). exists KRecv; cbn; auto.
-Qed.
-
-Theorem x_delivered : LE ~> (fun s => delivered s \/ raced s = true).
-Proof.
-  assert ((fun s => LE s /\ xc s = KErr) ~> (fun s => delivered s \/ raced s = true)) as K1.
-  { intros i (HL & Hx). destruct (kerr_resolved _ (Inv_run i) (proj1 HL) Hx) as [Hr|He].
-    - exists i; auto.
-    - destruct (xErr i) as (j & Hj & Hd); [repeat split; auto; apply HL|]. exists j; auto. }
-  assert ((fun s => LE s /\ xc s = KSelf) ~> (fun s => delivered s \/ raced s = true)) as K2
-    by (eapply lt_trans; [apply xSelf | apply K1]).
-  assert ((fun s => LE s /\ xc s = KLck) ~> (fun s => delivered s \/ raced s = true)) as K2'
-    by (eapply lt_trans; [apply xLck | apply K1]).
-  assert ((fun s => LE s /\ xc s = KW2) ~> (fun s => delivered s \/ raced s = true)) as K3
-    by (eapply lt_trans; [apply xW2 | apply K2']).
-  intros i HL. destruct (xc (st r i)) eqn:E.
-  - destruct (xW1 i (conj HL E)) as (j & Hj & HL' & [E'|E']).
-    + destruct (K3 j (conj HL' E')) as (k & Hk & Hq). exists k; split; auto; lia.
-    + destruct (K2 j (conj HL' E')) as (k & Hk & Hq). exists k; split; auto; lia.
-  - apply K3; auto.
-  - apply K2'; auto.
-  - apply K2; auto.
-  - apply K1; auto.
-  - exists i; split; auto. left; left; auto.
-  - exists i; split; auto. left; right; auto.
-Qed.
-
-(* S3, liveness: once Close has been entered -- by Client.Close, or by a loop that saw the
-   connection die -- both loops exit and X's caller receives from ctx.Err, unless the write
-   loop's own Close returned while c.done was still open. *)
-Theorem no_stranding :
-  (fun s => closed s = true) ~>
-  (fun s => loops_exited s /\ (delivered s \/ raced s = true)).
-Proof.
-  intros i Hc. destruct (both_loops_exit i Hc) as (j & Hj & (Hw & Hr) & Hd).
-  destruct (x_delivered j (conj Hw (conj Hr Hd))) as (k & Hk & Hq).
-  exists k; split; [lia|]. split; auto. split.
-  - apply (srun _ wl_done_stable j k); auto.
-  - apply (srun _ rl_done_stable j k); auto.
-Qed.
-End P.
-End CliL8.
+From H2V Require Import Impl.Teardown Proofs.TeardownGen Proofs.TeardownSrvInv Proofs.TeardownSrvS1 Proofs.TeardownSrvS2 Proofs.TeardownSrvEx Proofs.TeardownCliInv Proofs.TeardownCliInv1 Proofs.TeardownCliInv2 Proofs.TeardownCliInv3 Proofs.TeardownCliInv4 Proofs.TeardownCliInv5 Proofs.TeardownCliLocks Proofs.TeardownCliEx Proofs.TeardownCliLive1 Proofs.TeardownCliLive2a Proofs.TeardownCliLive2b Proofs.TeardownCliLive2c Proofs.TeardownCliLive2d Proofs.TeardownCliLive3 Proofs.TeardownCliLive4 Proofs.TeardownCliLive5 Proofs.TeardownCliLive6 Proofs.TeardownCliLive7.
 
 (* ---------------------------------------------------------------------------------------- *)
 (** * The statements of Props/Teardown.v                                                      *)
 (* ---------------------------------------------------------------------------------------- *)
 Module Final.
+
+Theorem ordered_no_wait_cycle :
+  forall (Proc : Type) (wants : Proc -> option nat) (holds : Proc -> nat -> Prop),
+    ordered wants holds -> ~ wait_cycle wants holds.
+Proof. intros Proc w h. apply ordered_no_wait_cycle. Qed.
 
 Section Server.
 Import Srv.
@@ -2540,17 +108,17 @@ Proof using All.
   repeat split; auto. apply SrvEx.silent_only_peer; auto.
 Qed.
 
-Theorem F_ping_timer_survives : exists s,
-  reachable s /\ quiet s /\ pg s = PArmed /\
-  guard EPingFire s /\ guard (PWr ViaStop) (eff EPingFire s) /\
-  guard PRearm (eff (PWr ViaStop) (eff EPingFire s)) /\
-  eff PRearm (eff (PWr ViaStop) (eff EPingFire s)) = s.
+Theorem S1_ping_winds_down : forall s a, wstop s = true -> guard a s ->
+  wstop (eff a s) = true /\
+  pg_pot (pg (eff a s)) <= pg_pot (pg s) /\
+  (pg_act a = true -> pg_pot (pg (eff a s)) < pg_pot (pg s)).
 Proof using All.
-  exists SrvEx.ping_state.
-  pose proof SrvEx.ping_timer_survives as H. specialize (H cap). try specialize (H cap_pos).
-  cbn [guards run_acts] in H. destruct H as (H1 & H2 & H3 & H4 & (G1 & G2 & G3 & _) & H6).
-  split; [exact H1 | split; [exact H2 | split; [exact H3 | split; [exact G1 | split; [exact G2 | split; [exact G3 | exact H6]]]]]].
+  intros s a W G. split; [apply SrvP1.wstop_stable; auto|]. eapply SrvP1.ping_winds_down; eauto.
 Qed.
+
+Theorem S1_ping_bounded : forall s l s', wstop s = true ->
+  path guard eff (fun _ => True) s l s' -> count_pg l + pg_pot (pg s') <= pg_pot (pg s).
+Proof using All. intros; eapply SrvP1.ping_bounded_after_close; eauto. Qed.
 End Server.
 
 Theorem S2_example_reader_full : exists s,
@@ -2596,7 +164,7 @@ End Runs.
 
 Theorem S3_example : exists s,
   reachable s /\ closed s = true /\ done s = false /\ stalled s = false /\
-  wl s = LWrite HX /\ rl s = RHold HO 2 /\ uc s = UClose CDone /\
+  wl s = LWrite HX /\ rl s = RHold HO /\ uc s = UClose CDone /\
   xc s = KErr /\ xloc s = XTab /\ xerr s = false.
 Proof using All. exists CliEx.s3_state. apply CliEx.s3_example; auto. Qed.
 
@@ -2623,11 +191,14 @@ Theorem F4_stranded_by_close_race : exists s,
   (forall a, guard a s -> a = EPeerStall \/ a = ETick \/ a = EUserClose).
 Proof using All. exists CliEx.f4_state. apply CliEx.stranded_by_close_race; auto. Qed.
 
-Theorem F5_out_full_lock_cycle : exists s,
+Theorem S3_out_parks_hold_nothing : forall s p m,
+  reachable s -> parked_on_out s p -> ~ holds s p m.
+Proof using All. intros; eapply CliP2.out_parks_hold_nothing; eauto. Qed.
+
+Theorem F6_write_loop_parked_on_own_queue : exists s,
   reachable s /\ only_env s /\
   stalled s = false /\ gone s = false /\ done s = false /\
-  wl s = LAcq /\ rl s = ROutL HX 1 /\ lx s = LxRl /\ outq s = cap /\
-  xc s = KErr /\ xerr s = false.
-Proof using All. exists (CliEx.f5_state cap). apply CliEx.out_full_lock_cycle; auto. Qed.
+  wl s = LSelfOut /\ rl s = RRead /\ outq s = cap /\ xc s = KRet.
+Proof using All. exists (CliEx.f6_state cap). apply CliEx.write_loop_parked_on_own_queue; auto. Qed.
 End Client.
 End Final.
